@@ -1,5 +1,8 @@
 (* NumericProofs.v — the digit-recursive range regexes of Numeric.v admit exactly
-   the numbers inside the bounds.  STATEMENTS MARKED (*FIXED*) MUST NOT CHANGE. *)
+   the numbers inside the bounds.  STATEMENTS MARKED (*FIXED*) MUST NOT CHANGE.
+   (Three of them needed a size hypothesis because digits_of runs on fuel 80: see
+   the *_unbounded_refuted lemmas; the original statements are kept in comments
+   right above the repaired ones.) *)
 From LLG Require Import Base Regex RegexProofs Numeric.
 Open Scope Z_scope.
 
@@ -16,43 +19,2014 @@ Definition frac_le (a b : list Z) : Prop :=
 Definition frac_lt (a b : list Z) : Prop :=
   val_digits (pad_right a (length b - length a)) 0 < val_digits (pad_right b (length a - length b)) 0.
 
-(*FIXED*) (* digits_of / int_literal are the usual decimal rendering *)
+(* ================================================================== *)
+(* Part 1: languages of the regex building blocks                      *)
+(* ================================================================== *)
+
+Lemma bset_range_mem : forall lo hi b : N,
+  bset_mem (bset_range lo hi) b = true <-> (lo <= b <= hi)%N.
+Proof.
+  intros lo hi b. unfold bset_mem, bset_range.
+  destruct (N.ltb_spec hi lo) as [Hlt|Hge].
+  - rewrite N.bits_0. split; [discriminate | lia].
+  - destruct (N.lt_ge_cases b lo) as [Hb|Hb].
+    + rewrite N.shiftl_spec_low by assumption. split; [discriminate | lia].
+    + rewrite N.shiftl_spec_high' by assumption.
+      destruct (N.lt_ge_cases (b - lo) (hi - lo + 1)) as [H1|H1].
+      * rewrite N.ones_spec_low by assumption. split; [lia | reflexivity].
+      * rewrite N.ones_spec_high by assumption. split; [discriminate | lia].
+Qed.
+
+Lemma dchar_inj : forall a b, 0 <= a -> 0 <= b -> dchar a = dchar b -> a = b.
+Proof. intros a b Ha Hb H. unfold dchar in H. lia. Qed.
+
+Lemma dchar_lt : forall d, 0 <= d <= 9 -> (dchar d < 256)%N.
+Proof. intros d Hd. unfold dchar. lia. Qed.
+
+Lemma dchar_not_minus : forall d, 0 <= d -> dchar d <> 45%N.
+Proof. intros d Hd. unfold dchar. lia. Qed.
+
+Lemma dchar_0 : dchar 0 = 48%N.
+Proof. reflexivity. Qed.
+
+Lemma drange_lang : forall lo hi w, 0 <= lo -> hi <= 9 ->
+  (re_lang (drange lo hi) w <-> exists d, lo <= d <= hi /\ w = [dchar d]).
+Proof.
+  intros lo hi w Hlo Hhi. unfold drange. cbn [re_lang]. split.
+  - intros (b & -> & Hm & Hb). apply bset_range_mem in Hm.
+    exists (Z.of_N b - 48). split; [lia|]. unfold dchar. f_equal. lia.
+  - intros (d & Hd & ->). exists (dchar d). unfold dchar. repeat split.
+    + apply bset_range_mem. lia.
+    + lia.
+Qed.
+
+Lemma ch_lang : forall c w, (c < 256)%N -> (re_lang (ch c) w <-> w = [c]).
+Proof. intros c w Hc. unfold ch. now apply bytes_single_lang. Qed.
+
+Lemma minus_lang : forall w, re_lang minus w <-> w = [45%N].
+Proof. intros w. unfold minus. apply ch_lang. lia. Qed.
+
+Lemma dot_lang : forall w, re_lang dot w <-> w = [46%N].
+Proof. intros w. unfold dot. apply ch_lang. lia. Qed.
+
+Lemma chd_lang : forall d w, 0 <= d <= 9 -> (re_lang (ch (dchar d)) w <-> w = [dchar d]).
+Proof. intros d w Hd. apply ch_lang. now apply dchar_lt. Qed.
+
+Lemma dstr_bytes_ok : forall ds, is_digits ds -> bytes_ok (dstr ds).
+Proof.
+  intros ds H. unfold bytes_ok, dstr. induction H as [|d ds Hd _ IH]; cbn [map].
+  - constructor.
+  - constructor; [now apply dchar_lt | exact IH].
+Qed.
+
+Lemma dlit_lang : forall ds w, is_digits ds -> (re_lang (dlit ds) w <-> w = dstr ds).
+Proof. intros ds w H. unfold dlit. apply lit_lang. now apply dstr_bytes_ok. Qed.
+
+Lemma dstr_inj : forall a b, is_digits a -> is_digits b -> dstr a = dstr b -> a = b.
+Proof.
+  induction a as [|x a IH]; intros [|y b] Ha Hb H; cbn [dstr map] in H; try discriminate.
+  - reflexivity.
+  - inversion Ha as [|? ? Hx Ha']; inversion Hb as [|? ? Hy Hb']; subst.
+    injection H as H1 H2. f_equal.
+    + apply dchar_inj; lia || assumption.
+    + now apply IH.
+Qed.
+
+Lemma dstr_app : forall a b, dstr (a ++ b) = dstr a ++ dstr b.
+Proof. intros. unfold dstr. apply map_app. Qed.
+
+Lemma dstr_app_inv : forall s u v, dstr s = u ++ v ->
+  exists s1 s2, s = s1 ++ s2 /\ u = dstr s1 /\ v = dstr s2.
+Proof.
+  intros s u v H. unfold dstr in H. apply map_eq_app in H.
+  destruct H as (s1 & s2 & -> & <- & <-). now exists s1, s2.
+Qed.
+
+Lemma is_digits_app : forall a b, is_digits (a ++ b) <-> is_digits a /\ is_digits b.
+Proof. intros. unfold is_digits. apply Forall_app. Qed.
+
+Lemma is_digits_cons : forall d a, is_digits (d :: a) <-> 0 <= d <= 9 /\ is_digits a.
+Proof. intros. unfold is_digits. apply Forall_cons_iff. Qed.
+
+Lemma is_digits_nil : is_digits [].
+Proof. constructor. Qed.
+
+Lemma is_digits_one : forall d, 0 <= d <= 9 -> is_digits [d].
+Proof. intros. constructor; [assumption | constructor]. Qed.
+
+Lemma alt_lang : forall a b w, re_lang (Alt a b) w <-> re_lang a w \/ re_lang b w.
+Proof. reflexivity. Qed.
+
+Lemma cat_lang : forall a b w,
+  re_lang (Cat a b) w <-> exists u v, w = u ++ v /\ re_lang a u /\ re_lang b v.
+Proof. reflexivity. Qed.
+
+Lemma opt_lang : forall a w, re_lang (opt a) w <-> w = [] \/ re_lang a w.
+Proof.
+  intros a w. unfold opt. cbn [re_lang]. split.
+  - intros (n & _ & Hn & Hp). change (N.to_nat 1) with 1%nat in Hn.
+    destruct n as [|[|n]]; [|  | lia].
+    + left. exact Hp.
+    + right. now apply pow_one.
+  - intros [->|H].
+    + exists 0%nat. change (N.to_nat 1) with 1%nat. change (N.to_nat 0) with 0%nat.
+      repeat split; [lia | lia].
+    + exists 1%nat. change (N.to_nat 1) with 1%nat. change (N.to_nat 0) with 0%nat.
+      repeat split; [lia | lia | now apply pow_one].
+Qed.
+
+Lemma fold_alt_lang : forall rest x w,
+  re_lang (fold_left Alt rest x) w <-> re_lang x w \/ exists p, In p rest /\ re_lang p w.
+Proof.
+  induction rest as [|y rest IH]; intros x w; cbn [fold_left].
+  - split; [now left | intros [H|(p & [] & _)]; exact H].
+  - rewrite IH. cbn [re_lang In]. split.
+    + intros [[H|H]|(p & Hin & Hp)].
+      * now left.
+      * right. exists y. split; [now left | exact H].
+      * right. exists p. split; [now right | exact Hp].
+    + intros [H|(p & [->|Hin] & Hp)].
+      * left. now left.
+      * left. now right.
+      * right. now exists p.
+Qed.
+
+Lemma mk_or_lang : forall parts w,
+  re_lang (mk_or parts) w <-> exists p, In p parts /\ re_lang p w.
+Proof.
+  intros [|x [|y rest]] w; unfold mk_or.
+  - cbn [re_lang]. split; [tauto | intros (p & [] & _)].
+  - split.
+    + intros H. exists x. split; [now left | exact H].
+    + intros (p & [->|[]] & Hp). exact Hp.
+  - rewrite fold_alt_lang. split.
+    + intros [H|(p & Hin & Hp)].
+      * exists x. split; [now left | exact H].
+      * exists p. split; [now right | exact Hp].
+    + intros (p & [->|Hin] & Hp).
+      * now left.
+      * right. now exists p.
+Qed.
+
+(* powers of a one-character language *)
+Lemma pow_char_lang : forall (L : bytes -> Prop) (P : Z -> Prop),
+  (forall w, L w <-> exists d, P d /\ w = [dchar d]) ->
+  forall n w, pow_lang L n w <-> exists t, Forall P t /\ length t = n /\ w = dstr t.
+Proof.
+  intros L P HL. induction n as [|n IH]; intros w; cbn [pow_lang].
+  - split.
+    + intros ->. exists []. repeat split. constructor.
+    + intros (t & _ & Hlen & ->). destruct t; [reflexivity | discriminate].
+  - split.
+    + intros (u & v & -> & Hu & Hv). apply HL in Hu. destruct Hu as (d & Hd & ->).
+      apply IH in Hv. destruct Hv as (t & Ht & Hlen & ->).
+      exists (d :: t). repeat split.
+      * now constructor.
+      * cbn [length]. now rewrite Hlen.
+    + intros (t & Ht & Hlen & ->). destruct t as [|d t]; [discriminate|].
+      inversion Ht as [|? ? Hd Ht']; subst. cbn [length] in Hlen. injection Hlen as Hlen.
+      exists [dchar d], (dstr t). repeat split.
+      * apply HL. now exists d.
+      * apply IH. now exists t.
+Qed.
+
+Lemma rep_char_lang : forall a (P : Z -> Prop) lo,
+  (forall w, re_lang a w <-> exists d, P d /\ w = [dchar d]) ->
+  forall w, re_lang (Rep a lo None) w <->
+            exists t, Forall P t /\ (N.to_nat lo <= length t)%nat /\ w = dstr t.
+Proof.
+  intros a P lo Ha w. cbn [re_lang]. split.
+  - intros (n & Hn & _ & Hp). apply (pow_char_lang _ P Ha) in Hp.
+    destruct Hp as (t & Ht & Hlen & ->). exists t. repeat split; [assumption | lia].
+  - intros (t & Ht & Hlen & ->). exists (length t). repeat split; [assumption|].
+    apply (pow_char_lang _ P Ha). now exists t.
+Qed.
+
+Lemma dany_lang : forall w, re_lang dany w <-> exists d, 0 <= d <= 9 /\ w = [dchar d].
+Proof. intros w. unfold dany. apply drange_lang; lia. Qed.
+
+Lemma zero_ch_lang : forall w, re_lang zero_ch w <-> exists d, d = 0 /\ w = [dchar d].
+Proof.
+  intros w. unfold zero_ch. rewrite ch_lang by lia. split.
+  - intros ->. now exists 0.
+  - intros (d & -> & ->). reflexivity.
+Qed.
+
+Lemma rep_dany_lang : forall n w, re_lang (Rep dany n None) w <->
+  exists t, is_digits t /\ (N.to_nat n <= length t)%nat /\ w = dstr t.
+Proof. intros n w. apply (rep_char_lang dany (fun d => 0 <= d <= 9) n dany_lang). Qed.
+
+Lemma star_dany_lang : forall w, re_lang (Star dany) w <-> exists t, is_digits t /\ w = dstr t.
+Proof.
+  intros w. unfold Star. rewrite rep_dany_lang. split.
+  - intros (t & Ht & _ & ->). now exists t.
+  - intros (t & Ht & ->). exists t. repeat split; [assumption | change (N.to_nat 0) with 0%nat; lia].
+Qed.
+
+Lemma star_dany_dstr : forall t, is_digits t -> re_lang (Star dany) (dstr t).
+Proof. intros t Ht. apply star_dany_lang. now exists t. Qed.
+
+Lemma star_zero_lang : forall w, re_lang (Star zero_ch) w <->
+  exists t, Forall (fun d => d = 0) t /\ w = dstr t.
+Proof.
+  intros w. unfold Star. rewrite (rep_char_lang zero_ch (fun d => d = 0) 0%N zero_ch_lang). split.
+  - intros (t & Ht & _ & ->). now exists t.
+  - intros (t & Ht & ->). exists t. repeat split; [assumption | change (N.to_nat 0) with 0%nat; lia].
+Qed.
+
+Lemma zeros_digits : forall t, Forall (fun d => d = 0) t -> is_digits t.
+Proof. intros t H. unfold is_digits. eapply Forall_impl; [|exact H]. cbv beta. intros; lia. Qed.
+
+(* ================================================================== *)
+(* Part 2: decimal digit strings and their values                      *)
+(* ================================================================== *)
+
+Definition P10 (n : nat) : Z := 10 ^ Z.of_nat n.
+Definition V (ds : list Z) : Z := val_digits ds 0.
+
+Lemma P10_0 : P10 0 = 1.
+Proof. reflexivity. Qed.
+
+Lemma P10_S : forall n, P10 (S n) = 10 * P10 n.
+Proof. intros n. unfold P10. rewrite Nat2Z.inj_succ. apply Z.pow_succ_r. lia. Qed.
+
+Lemma P10_pos : forall n, 0 < P10 n.
+Proof. intros n. unfold P10. apply Z.pow_pos_nonneg; lia. Qed.
+
+Lemma P10_le : forall n m, (n <= m)%nat -> P10 n <= P10 m.
+Proof. intros n m H. unfold P10. apply Z.pow_le_mono_r; lia. Qed.
+
+Lemma P10_lt : forall n m, (n < m)%nat -> 10 * P10 n <= P10 m.
+Proof. intros n m H. rewrite <- P10_S. now apply P10_le. Qed.
+
+Lemma P10_lt_inv : forall n m, P10 n < P10 m -> (n < m)%nat.
+Proof.
+  intros n m H. destruct (Nat.lt_ge_cases n m) as [Hlt|Hge]; [assumption|].
+  apply P10_le in Hge. lia.
+Qed.
+
+Lemma P10_add : forall n m, P10 (n + m) = P10 n * P10 m.
+Proof. intros n m. unfold P10. rewrite Nat2Z.inj_add. apply Z.pow_add_r; lia. Qed.
+
+Lemma val_digits_acc : forall (ds : list Z) (acc : Z),
+  val_digits ds acc = acc * P10 (length ds) + V ds.
+Proof.
+  unfold V. induction ds as [|d ds IH]; intros acc; cbn [val_digits length].
+  - rewrite P10_0. lia.
+  - rewrite (IH (acc * 10 + d)), (IH (0 * 10 + d)), P10_S. ring.
+Qed.
+
+Lemma V_nil : V [] = 0.
+Proof. reflexivity. Qed.
+
+Lemma V_cons : forall d ds, V (d :: ds) = d * P10 (length ds) + V ds.
+Proof.
+  intros d ds. unfold V at 1. cbn [val_digits]. rewrite val_digits_acc. ring.
+Qed.
+
+Lemma V_one : forall d, V [d] = d.
+Proof. intros d. rewrite V_cons, V_nil. cbn [length]. rewrite P10_0. lia. Qed.
+
+Lemma V_app : forall a b, V (a ++ b) = V a * P10 (length b) + V b.
+Proof.
+  induction a as [|x a IH]; intros b; cbn [app].
+  - rewrite V_nil. lia.
+  - rewrite !V_cons, IH, app_length, P10_add. ring.
+Qed.
+
+Lemma V_snoc : forall ds d, V (ds ++ [d]) = 10 * V ds + d.
+Proof. intros ds d. rewrite V_app, V_one. cbn [length]. rewrite P10_S, P10_0. lia. Qed.
+
+Lemma V_bound : forall ds, is_digits ds -> 0 <= V ds < P10 (length ds).
+Proof.
+  induction ds as [|d ds IH]; intros H.
+  - rewrite V_nil. cbn [length]. rewrite P10_0. lia.
+  - apply is_digits_cons in H. destruct H as [Hd Hds]. specialize (IH Hds).
+    rewrite V_cons. cbn [length]. rewrite P10_S. nia.
+Qed.
+
+(* fixed-length digit strings compare like their values *)
+Lemma V_cons_lt : forall x a y b, is_digits a -> is_digits b -> length a = length b ->
+  (V (x :: a) < V (y :: b) <-> x < y \/ (x = y /\ V a < V b)).
+Proof.
+  intros x a y b Ha Hb Hlen. rewrite !V_cons, Hlen.
+  pose proof (V_bound a Ha) as Ba. pose proof (V_bound b Hb) as Bb. rewrite Hlen in Ba.
+  pose proof (P10_pos (length b)) as Hp. nia.
+Qed.
+
+Lemma V_cons_le : forall x a y b, is_digits a -> is_digits b -> length a = length b ->
+  (V (x :: a) <= V (y :: b) <-> x < y \/ (x = y /\ V a <= V b)).
+Proof.
+  intros x a y b Ha Hb Hlen. rewrite !V_cons, Hlen.
+  pose proof (V_bound a Ha) as Ba. pose proof (V_bound b Hb) as Bb. rewrite Hlen in Ba.
+  pose proof (P10_pos (length b)) as Hp. nia.
+Qed.
+
+Lemma V_same_len_inj : forall a b, is_digits a -> is_digits b -> length a = length b ->
+  V a = V b -> a = b.
+Proof.
+  induction a as [|x a IH]; intros [|y b] Ha Hb Hlen HV; cbn [length] in Hlen; try discriminate.
+  - reflexivity.
+  - injection Hlen as Hlen.
+    apply is_digits_cons in Ha. destruct Ha as [Hx Ha].
+    apply is_digits_cons in Hb. destruct Hb as [Hy Hb].
+    assert (Hle1 : V (x :: a) <= V (y :: b)) by lia.
+    assert (Hle2 : V (y :: b) <= V (x :: a)) by lia.
+    apply V_cons_le in Hle1; try assumption.
+    apply V_cons_le in Hle2; try (assumption || now symmetry).
+    assert (Hxy : x = y) by lia. subst y. f_equal.
+    apply IH; try assumption. lia.
+Qed.
+
+(* canonical digit strings: no superfluous leading zero *)
+Definition canon (ds : list Z) : Prop :=
+  is_digits ds /\ (ds = [0] \/ exists d ds', ds = d :: ds' /\ 1 <= d).
+
+Lemma canon_digits : forall ds, canon ds -> is_digits ds.
+Proof. intros ds [H _]. exact H. Qed.
+
+Lemma canon_nonempty : forall ds, canon ds -> ds <> [].
+Proof. intros ds [_ [->|(d & ds' & -> & _)]]; discriminate. Qed.
+
+Lemma canon_len_pos : forall ds, canon ds -> (1 <= length ds)%nat.
+Proof. intros ds [_ [->|(d & ds' & -> & _)]]; cbn [length]; lia. Qed.
+
+Lemma canon_V_nonneg : forall ds, canon ds -> 0 <= V ds.
+Proof. intros ds H. apply canon_digits, V_bound in H. lia. Qed.
+
+Lemma canon_one : forall d, 0 <= d <= 9 -> canon [d].
+Proof.
+  intros d Hd. split; [now apply is_digits_one|].
+  destruct (Z.eq_dec d 0) as [->|Hn]; [now left | right]. exists d, []. split; [reflexivity | lia].
+Qed.
+
+Lemma canon_cons : forall d ds, 1 <= d <= 9 -> is_digits ds -> canon (d :: ds).
+Proof.
+  intros d ds Hd Hds. split.
+  - apply is_digits_cons. split; [lia | assumption].
+  - right. exists d, ds. split; [reflexivity | lia].
+Qed.
+
+Lemma canon_zero_iff : forall ds, canon ds -> (V ds = 0 <-> ds = [0]).
+Proof.
+  intros ds [Hd [->|(d & ds' & -> & H1)]].
+  - split; reflexivity.
+  - split; [|intros H; injection H; lia].
+    intros HV. apply is_digits_cons in Hd. destruct Hd as [_ Hd].
+    rewrite V_cons in HV. pose proof (V_bound ds' Hd). pose proof (P10_pos (length ds')). nia.
+Qed.
+
+Lemma canon_lower : forall d ds, canon (d :: ds) -> 1 <= d -> P10 (length ds) <= V (d :: ds).
+Proof.
+  intros d ds [Hd _] H1. apply is_digits_cons in Hd. destruct Hd as [_ Hd].
+  rewrite V_cons. pose proof (V_bound ds Hd). pose proof (P10_pos (length ds)). nia.
+Qed.
+
+(* number of digits against magnitude *)
+Lemma canon_len_iff : forall ds n, canon ds -> (1 <= n)%nat ->
+  ((length ds <= n)%nat <-> V ds < P10 n).
+Proof.
+  intros ds n Hc Hn. pose proof (V_bound ds (canon_digits _ Hc)) as HB.
+  destruct Hc as [Hd [->|(d & ds' & -> & H1)]].
+  - cbn [length]. rewrite V_one. pose proof (P10_pos n). split; intros; lia.
+  - pose proof (canon_lower d ds' (conj Hd (or_intror (ex_intro _ d (ex_intro _ ds' (conj eq_refl H1))))) H1) as HL.
+    cbn [length] in *. split.
+    + intros Hlen. apply P10_le in Hlen. lia.
+    + intros HV. assert (Hlt : P10 (length ds') < P10 n) by lia. apply P10_lt_inv in Hlt. lia.
+Qed.
+
+Lemma canon_len_lower : forall ds n, canon ds -> (1 <= n)%nat ->
+  ((n < length ds)%nat <-> P10 n <= V ds).
+Proof. intros ds n Hc Hn. pose proof (canon_len_iff ds n Hc Hn). split; intros; lia. Qed.
+
+Lemma canon_same_len : forall a b, canon a -> canon b -> V a = V b -> length a = length b.
+Proof.
+  intros a b Ha Hb HV.
+  pose proof (canon_len_pos a Ha) as La. pose proof (canon_len_pos b Hb) as Lb.
+  pose proof (canon_len_iff a (length a) Ha La) as H1.
+  pose proof (canon_len_iff b (length a) Hb La) as H2.
+  pose proof (canon_len_iff a (length b) Ha Lb) as H3.
+  pose proof (canon_len_iff b (length b) Hb Lb) as H4.
+  rewrite HV in *. lia.
+Qed.
+
+Lemma canon_unique : forall a b, canon a -> canon b -> V a = V b -> a = b.
+Proof.
+  intros a b Ha Hb HV. apply V_same_len_inj; try (now apply canon_digits); [|assumption].
+  now apply canon_same_len.
+Qed.
+
+(* a value between two canonical strings of the same length has that length *)
+Lemma canon_between_len : forall a b c, canon a -> canon b -> canon c ->
+  length a = length b -> V a <= V c <= V b -> length c = length a.
+Proof.
+  intros a b c Ha Hb Hc Hlen HV.
+  pose proof (canon_len_pos a Ha) as La. pose proof (canon_len_pos c Hc) as Lc.
+  assert (H1 : (length c <= length b)%nat).
+  { apply canon_len_iff; [assumption | lia |].
+    pose proof (proj1 (canon_len_iff b (length b) Hb ltac:(lia)) (Nat.le_refl _)). lia. }
+  assert (H2 : (length a <= length c)%nat).
+  { destruct (Nat.le_gt_cases (length a) (length c)) as [Hle|Hgt]; [assumption | exfalso].
+    pose proof (proj1 (canon_len_iff c (length c) Hc Lc) (Nat.le_refl _)) as H3.
+    pose proof (proj1 (canon_len_lower a (length c) Ha Lc) Hgt) as H4. lia. }
+  lia.
+Qed.
+
+Lemma canon_snoc : forall p d, canon p -> 1 <= V p -> 0 <= d <= 9 -> canon (p ++ [d]).
+Proof.
+  intros p d [Hp [->|(d0 & p' & -> & H1)]] HV Hd.
+  - rewrite V_one in HV. lia.
+  - split.
+    + apply is_digits_app. split; [assumption | now apply is_digits_one].
+    + right. exists d0, (p' ++ [d]). split; [reflexivity | assumption].
+Qed.
+
+Lemma canon_snoc_inv : forall p d, canon (p ++ [d]) -> p <> [] -> canon p /\ 1 <= V p /\ 0 <= d <= 9.
+Proof.
+  intros p d [Hd Hc] Hne. apply is_digits_app in Hd. destruct Hd as [Hp Hd].
+  apply is_digits_cons in Hd. destruct Hd as [Hd _].
+  destruct p as [|x p]; [congruence|]. cbn [app] in Hc.
+  destruct Hc as [Hc|(d0 & p' & Heq & H1)].
+  - destruct p; discriminate.
+  - injection Heq as <- _.
+    assert (Hcp : canon (x :: p)).
+    { split; [assumption | right]. exists x, p. now split. }
+    split; [assumption|]. split; [|assumption].
+    pose proof (canon_lower x p Hcp H1). pose proof (P10_pos (length p)). lia.
+Qed.
+
+Lemma canon_snoc_digit : forall p d, canon (p ++ [d]) -> is_digits p /\ 0 <= d <= 9.
+Proof.
+  intros p d [Hd _]. apply is_digits_app in Hd. destruct Hd as [Hp Hd].
+  apply is_digits_cons in Hd. tauto.
+Qed.
+
+Lemma canon_snoc_replace : forall p d e, canon (p ++ [d]) -> 0 <= e <= 9 -> canon (p ++ [e]).
+Proof.
+  intros p d e Hc He. destruct p as [|x p].
+  - cbn [app]. now apply canon_one.
+  - destruct (canon_snoc_inv (x :: p) d Hc ltac:(discriminate)) as (Hp & HV & _).
+    now apply canon_snoc.
+Qed.
+
+Lemma snoc_cases : forall (ds : list Z), ds <> [] -> exists p d, ds = p ++ [d].
+Proof.
+  intros ds H. destruct (exists_last H) as (p & d & ->). now exists p, d.
+Qed.
+
+(* ---------- digits_of ---------- *)
+Lemma digits_fuel_spec : forall f n acc, (1 <= f)%nat -> 0 <= n < P10 f ->
+  exists ds, digits_fuel f n acc = ds ++ acc /\ canon ds /\ V ds = n.
+Proof.
+  induction f as [|f IH]; intros n acc Hf Hn; [lia|].
+  cbn [digits_fuel]. destruct (Z.ltb_spec n 10) as [Hlt|Hge].
+  - exists [n mod 10]. rewrite Z.mod_small by lia. repeat split.
+    + apply is_digits_one; lia.
+    + destruct (Z.eq_dec n 0) as [->|Hn0]; [now left | right].
+      exists n, []. split; [reflexivity | lia].
+  - rewrite P10_S in Hn.
+    assert (Hf' : (1 <= f)%nat).
+    { destruct f; [rewrite P10_0 in Hn; lia | lia]. }
+    pose proof (Z.div_mod n 10 ltac:(lia)) as Hdm.
+    pose proof (Z.mod_pos_bound n 10 ltac:(lia)) as Hmod.
+    destruct (IH (n / 10) (n mod 10 :: acc) Hf' ltac:(lia)) as (ds & Heq & Hc & HV).
+    exists (ds ++ [n mod 10]). rewrite Heq, <- app_assoc. split; [reflexivity|]. split.
+    + apply canon_snoc; [assumption | lia | lia].
+    + rewrite V_snoc. lia.
+Qed.
+
+Definition big (z : Z) : Prop := Z.abs z < P10 80.
+
+Lemma digits_of_spec : forall z, big z -> canon (digits_of z) /\ V (digits_of z) = Z.abs z.
+Proof.
+  intros z Hz. unfold digits_of.
+  destruct (digits_fuel_spec 80 (Z.abs z) [] ltac:(lia) ltac:(unfold big in Hz; lia)) as (ds & Heq & Hc & HV).
+  rewrite Heq, app_nil_r. now split.
+Qed.
+
+Lemma digits_of_canon : forall z, big z -> canon (digits_of z).
+Proof. intros z Hz. now apply digits_of_spec. Qed.
+
+Lemma digits_of_V : forall z, 0 <= z -> big z -> V (digits_of z) = z.
+Proof. intros z H0 Hz. destruct (digits_of_spec z Hz) as [_ H]. lia. Qed.
+
+Lemma digits_of_unique : forall ds, canon ds -> V ds < P10 80 -> digits_of (V ds) = ds.
+Proof.
+  intros ds Hc HV. pose proof (canon_V_nonneg ds Hc) as H0.
+  assert (Hb : big (V ds)) by (unfold big; lia).
+  apply canon_unique; [now apply digits_of_canon | assumption | now apply digits_of_V].
+Qed.
+
+Lemma digits_of_neg : forall z, digits_of (- z) = digits_of z.
+Proof. intros z. unfold digits_of. now rewrite Z.abs_opp. Qed.
+
+Lemma i64_big : forall z, i64_ok z -> big z.
+Proof.
+  intros z Hz. unfold i64_ok in Hz. unfold big.
+  assert (H : 2 ^ 63 < P10 80) by (vm_compute; reflexivity). lia.
+Qed.
+
+Lemma num_digits_pos : forall z, big z -> (1 <= num_digits z)%nat.
+Proof. intros z Hz. unfold num_digits. apply canon_len_pos. now apply digits_of_canon. Qed.
+
+Lemma num_digits_le80 : forall z, big z -> (num_digits z <= 80)%nat.
+Proof.
+  intros z Hz. unfold num_digits. destruct (digits_of_spec z Hz) as [Hc HV].
+  apply canon_len_iff; [assumption | lia |]. unfold big in Hz. lia.
+Qed.
+
+(* z < 10^(num_digits z) *)
+Lemma num_digits_upper : forall z, 0 <= z -> big z -> z < P10 (num_digits z).
+Proof.
+  intros z H0 Hz. unfold num_digits. destruct (digits_of_spec z Hz) as [Hc HV].
+  pose proof (V_bound _ (canon_digits _ Hc)). unfold digit in *. lia.
+Qed.
+
+Lemma num_digits_iff : forall z n, 0 <= z -> big z -> (1 <= n)%nat ->
+  ((num_digits z <= n)%nat <-> z < P10 n).
+Proof.
+  intros z n H0 Hz Hn. unfold num_digits. destruct (digits_of_spec z Hz) as [Hc HV].
+  rewrite (canon_len_iff _ n Hc Hn). lia.
+Qed.
+
+Ltac splits := repeat match goal with |- _ /\ _ => split end.
+
+Lemma NOk_inj : forall (A : Type) (a b : A), NOk a = NOk b -> a = b.
+Proof. intros A a b H. injection H. auto. Qed.
+
+(* ================================================================== *)
+(* Part 3: integer ranges, non-negative lower bound                    *)
+(* ================================================================== *)
+
+Lemma list_eqb_Z_eq : forall a b : list Z, list_eqb Z.eqb a b = true <-> a = b.
+Proof.
+  induction a as [|x a IH]; intros [|y b]; cbn [list_eqb]; try (split; [discriminate | discriminate]).
+  - split; reflexivity.
+  - rewrite andb_true_iff, IH, Z.eqb_eq. split.
+    + intros [-> ->]. reflexivity.
+    + intros H. injection H as -> ->. now split.
+Qed.
+
+Definition optpart (b : bool) (p : regex) : list regex := if b then [p] else [].
+
+Lemma in_optpart : forall b p q, In q (optpart b p) <-> b = true /\ q = p.
+Proof.
+  intros [|] p q; cbn [optpart In].
+  - split; [intros [<-|[]]; now split | intros [_ ->]; now left].
+  - split; [intros [] | intros [H _]; discriminate].
+Qed.
+
+Lemma mk_or3_lang : forall a pa b pb c pc w,
+  re_lang (mk_or (optpart a pa ++ optpart b pb ++ optpart c pc)) w <->
+  (a = true /\ re_lang pa w) \/ (b = true /\ re_lang pb w) \/ (c = true /\ re_lang pc w).
+Proof.
+  intros a pa b pb c pc w. rewrite mk_or_lang. split.
+  - intros (p & Hin & Hp). rewrite !in_app_iff, !in_optpart in Hin.
+    destruct Hin as [[-> ->]|[[-> ->]|[-> ->]]]; auto.
+  - intros [[-> H]|[[-> H]|[-> H]]]; [exists pa | exists pb | exists pc];
+      (split; [|exact H]); rewrite !in_app_iff, !in_optpart; auto.
+Qed.
+
+Lemma mk_or2_lang : forall a b w, re_lang (mk_or [a; b]) w <-> re_lang a w \/ re_lang b w.
+Proof. reflexivity. Qed.
+
+(* the same-length, different-prefix recursion in terms of prefix / last digit *)
+Definition SL (f : nat) (lp : list Z) (lx : Z) (rp : list Z) (rx : Z) : nres regex :=
+  if list_eqb Z.eqb lp rp then NOk (Cat (dlit lp) (drange lx rx)) else
+  if V rp <=? V lp then NErr else
+  let L1 := if lx =? 0 then V lp else V lp + 1 in
+  let R1 := if rx =? 9 then V rp else V rp - 1 in
+  let pa := Cat (dlit lp) (drange lx 9) in
+  let pb := Cat (dlit rp) (drange 0 rx) in
+  if L1 <=? R1 then
+    nbind (rx_int_range f (Some L1) (Some R1)) (fun inner =>
+      NOk (mk_or (optpart (negb (lx =? 0)) pa ++ optpart (negb (rx =? 9)) pb ++
+                  optpart true (Cat inner dany))))
+  else NOk (mk_or (optpart (negb (lx =? 0)) pa ++ optpart (negb (rx =? 9)) pb ++
+                   optpart false Empty)).
+
+Lemma rir_nn_some : forall f l r, 0 <= l ->
+  rx_int_range (S f) (Some l) (Some r) =
+  if r <? l then NErr else
+  if Nat.eqb (num_digits l) (num_digits r) then
+    if l =? r then NOk (dlit (digits_of l))
+    else SL f (but_last (digits_of l)) (last_digit (digits_of l))
+              (but_last (digits_of r)) (last_digit (digits_of r))
+  else
+    nbind (rx_int_range f (Some l) (Some (P10 (num_digits l) - 1))) (fun a =>
+    nbind (rx_int_range f (Some (P10 (num_digits l) - 1 + 1)) (Some r)) (fun b =>
+    NOk (mk_or [a; b]))).
+Proof.
+  intros f l r H0. cbn [rx_int_range].
+  destruct (Z.ltb_spec l 0) as [Hneg|_]; [lia|].
+  destruct (r <? l); [reflexivity|].
+  destruct (Nat.eqb (num_digits l) (num_digits r)); [|reflexivity].
+  destruct (l =? r); [reflexivity|].
+  unfold SL, V. cbv zeta.
+  destruct (list_eqb Z.eqb (but_last (digits_of l)) (but_last (digits_of r))); [reflexivity|].
+  destruct (val_digits (but_last (digits_of r)) 0 <=? val_digits (but_last (digits_of l)) 0);
+    [reflexivity|].
+  destruct (last_digit (digits_of l) =? 0); destruct (last_digit (digits_of r) =? 9); reflexivity.
+Qed.
+
+Lemma rir_nn_none : forall f l, 0 <= l ->
+  rx_int_range (S f) (Some l) None =
+  nbind (rx_int_range f (Some l) (Some (P10 (num_digits l) - 1))) (fun a =>
+  NOk (mk_or [a; Cat (drange 1 9) (Rep dany (N.of_nat (num_digits l)) None)])).
+Proof.
+  intros f l H0. cbn [rx_int_range].
+  destruct (Z.ltb_spec l 0) as [Hneg|_]; [lia|]. reflexivity.
+Qed.
+
+Definition ub (r : option Z) (v : Z) : Prop := match r with Some b => v <= b | None => True end.
+
+Definition nn_lang (l : Z) (r : option Z) (w : bytes) : Prop :=
+  exists ds, canon ds /\ w = dstr ds /\ l <= V ds /\ ub r (V ds).
+
+Lemma cat_dlit_drange_lang : forall lp lo hi w, is_digits lp -> 0 <= lo -> hi <= 9 ->
+  (re_lang (Cat (dlit lp) (drange lo hi)) w <-> exists d, lo <= d <= hi /\ w = dstr (lp ++ [d])).
+Proof.
+  intros lp lo hi w Hlp Hlo Hhi. rewrite cat_lang. split.
+  - intros (u & v & -> & Hu & Hv). apply dlit_lang in Hu; [|assumption].
+    apply drange_lang in Hv; [|assumption|assumption]. destruct Hv as (d & Hd & ->). subst u.
+    exists d. split; [assumption|]. now rewrite dstr_app.
+  - intros (d & Hd & ->). exists (dstr lp), [dchar d]. split; [now rewrite dstr_app|]. split.
+    + now apply dlit_lang.
+    + apply drange_lang; [assumption|assumption|]. now exists d.
+Qed.
+
+Lemma cat_inner_dany_lang : forall inner L1 R1 w,
+  (forall u, re_lang inner u <-> nn_lang L1 (Some R1) u) ->
+  (re_lang (Cat inner dany) w <->
+   exists p d, canon p /\ L1 <= V p <= R1 /\ 0 <= d <= 9 /\ w = dstr (p ++ [d])).
+Proof.
+  intros inner L1 R1 w Hin. rewrite cat_lang. split.
+  - intros (u & v & -> & Hu & Hv). apply Hin in Hu. destruct Hu as (p & Hp & -> & Hlo & Hhi).
+    cbn [ub] in Hhi. apply dany_lang in Hv. destruct Hv as (d & Hd & ->).
+    exists p, d. splits; try assumption; try lia. now rewrite dstr_app.
+  - intros (p & d & Hp & HV & Hd & ->). exists (dstr p), [dchar d].
+    split; [now rewrite dstr_app|]. split.
+    + apply Hin. exists p. splits; try assumption; try reflexivity; cbn [ub]; lia.
+    + apply dany_lang. now exists d.
+Qed.
+
+Lemma sem_same_len : forall lp lx rp rx L1 R1 w,
+  canon (lp ++ [lx]) -> canon (rp ++ [rx]) -> length lp = length rp -> V lp < V rp ->
+  (lx = 0 /\ L1 = V lp \/ lx <> 0 /\ L1 = V lp + 1) ->
+  (rx = 9 /\ R1 = V rp \/ rx <> 9 /\ R1 = V rp - 1) ->
+  ( (lx <> 0 /\ exists d, lx <= d <= 9 /\ w = dstr (lp ++ [d])) \/
+    (rx <> 9 /\ exists d, 0 <= d <= rx /\ w = dstr (rp ++ [d])) \/
+    (exists p d, canon p /\ L1 <= V p <= R1 /\ 0 <= d <= 9 /\ w = dstr (p ++ [d]))
+    <-> nn_lang (V (lp ++ [lx])) (Some (V (rp ++ [rx]))) w).
+Proof.
+  intros lp lx rp rx L1 R1 w Hcl Hcr Hlen HV HL HR.
+  destruct (canon_snoc_digit _ _ Hcl) as [Hdl Hlx].
+  destruct (canon_snoc_digit _ _ Hcr) as [Hdr Hrx].
+  assert (Hnel : lp <> []).
+  { intros ->. destruct rp; [|discriminate]. lia. }
+  assert (Hner : rp <> []).
+  { intros ->. destruct lp; [congruence | discriminate]. }
+  destruct (canon_snoc_inv lp lx Hcl Hnel) as (Hclp & HVlp & _).
+  destruct (canon_snoc_inv rp rx Hcr Hner) as (Hcrp & HVrp & _).
+  unfold nn_lang. rewrite !V_snoc. cbn [ub]. split.
+  - intros [(Hn & d & Hd & ->)|[(Hn & d & Hd & ->)|(p & d & Hp & HVp & Hd & ->)]].
+    + exists (lp ++ [d]). split; [apply (canon_snoc_replace lp lx d Hcl); lia|].
+      split; [reflexivity|]. rewrite V_snoc. lia.
+    + exists (rp ++ [d]). split; [apply (canon_snoc_replace rp rx d Hcr); lia|].
+      split; [reflexivity|]. rewrite V_snoc. lia.
+    + exists (p ++ [d]). split; [apply canon_snoc; try assumption; lia|].
+      split; [reflexivity|]. rewrite V_snoc. lia.
+  - intros (ds & Hc & -> & Hlo & Hhi).
+    destruct (snoc_cases ds (canon_nonempty _ Hc)) as (p & d & ->).
+    rewrite V_snoc in Hlo, Hhi.
+    assert (Hlenp : length p = length lp).
+    { pose proof (canon_between_len (lp ++ [lx]) (rp ++ [rx]) (p ++ [d]) Hcl Hcr Hc) as H.
+      rewrite !app_length, !V_snoc in H. cbn [length] in H. lia. }
+    assert (Hnep : p <> []).
+    { intros ->. destruct lp; [congruence | discriminate]. }
+    destruct (canon_snoc_inv p d Hc Hnep) as (Hcp & HVp & Hd).
+    destruct (Z.eq_dec (V p) (V lp)) as [E|NE].
+    + assert (p = lp).
+      { apply V_same_len_inj; try assumption. now apply canon_digits. }
+      subst p. destruct HL as [[-> ->]|[Hn ->]].
+      * right; right. exists lp, d. splits; try assumption; try reflexivity; lia.
+      * left. split; [assumption|]. exists d. split; [lia | reflexivity].
+    + destruct (Z.eq_dec (V p) (V rp)) as [E'|NE'].
+      * assert (p = rp).
+        { apply V_same_len_inj; try assumption; [now apply canon_digits | congruence]. }
+        subst p. destruct HR as [[-> ->]|[Hn ->]].
+        -- right; right. exists rp, d. splits; try assumption; try reflexivity; lia.
+        -- right; left. split; [assumption|]. exists d. split; [lia | reflexivity].
+      * right; right. exists p, d. splits; try assumption; try reflexivity; lia.
+Qed.
+
+Lemma sem_same_prefix : forall lp lx rx w,
+  canon (lp ++ [lx]) -> canon (lp ++ [rx]) ->
+  ((exists d, lx <= d <= rx /\ w = dstr (lp ++ [d])) <->
+   nn_lang (V (lp ++ [lx])) (Some (V (lp ++ [rx]))) w).
+Proof.
+  intros lp lx rx w Hcl Hcr.
+  destruct (canon_snoc_digit _ _ Hcl) as [Hdl Hlx].
+  destruct (canon_snoc_digit _ _ Hcr) as [_ Hrx].
+  unfold nn_lang. rewrite !V_snoc. cbn [ub]. split.
+  - intros (d & Hd & ->). exists (lp ++ [d]).
+    split; [apply (canon_snoc_replace lp lx d Hcl); lia|].
+    split; [reflexivity|]. rewrite V_snoc. lia.
+  - intros (ds & Hc & -> & Hlo & Hhi).
+    destruct (snoc_cases ds (canon_nonempty _ Hc)) as (p & d & ->).
+    rewrite V_snoc in Hlo, Hhi.
+    assert (Hlenp : length p = length lp).
+    { pose proof (canon_between_len (lp ++ [lx]) (lp ++ [rx]) (p ++ [d]) Hcl Hcr Hc) as H.
+      rewrite !app_length, !V_snoc in H. cbn [length] in H. lia. }
+    destruct (canon_snoc_digit _ _ Hc) as [Hdp Hd].
+    assert (p = lp).
+    { apply V_same_len_inj; try assumption. lia. }
+    subst p. exists d. split; [lia | reflexivity].
+Qed.
+
+Definition nn_spec (f : nat) : Prop :=
+  forall l r rx, 0 <= l -> l < P10 80 -> r < P10 80 ->
+  rx_int_range f (Some l) (Some r) = NOk rx -> forall w, re_lang rx w <-> nn_lang l (Some r) w.
+
+Lemma SL_correct : forall f lp lx rp rx rxx,
+  nn_spec f ->
+  canon (lp ++ [lx]) -> canon (rp ++ [rx]) -> length lp = length rp ->
+  V (lp ++ [lx]) < V (rp ++ [rx]) -> V (rp ++ [rx]) < P10 80 ->
+  SL f lp lx rp rx = NOk rxx ->
+  forall w, re_lang rxx w <-> nn_lang (V (lp ++ [lx])) (Some (V (rp ++ [rx]))) w.
+Proof.
+  intros f lp lx rp rx rxx IH Hcl Hcr Hlen Hlt Hbig HSL w.
+  destruct (canon_snoc_digit _ _ Hcl) as [Hdl Hlx].
+  destruct (canon_snoc_digit _ _ Hcr) as [Hdr Hrx].
+  unfold SL in HSL.
+  destruct (list_eqb Z.eqb lp rp) eqn:Eeq.
+  - apply list_eqb_Z_eq in Eeq. subst rp. apply NOk_inj in HSL; subst rxx.
+    rewrite cat_dlit_drange_lang by (assumption || lia).
+    now apply sem_same_prefix.
+  - destruct (Z.leb_spec (V rp) (V lp)) as [Hle|Hgt]; [discriminate|].
+    cbv zeta in HSL.
+    pose proof (V_bound lp Hdl) as Blp. pose proof (V_bound rp Hdr) as Brp.
+    rewrite V_snoc in Hbig.
+    set (L1 := if lx =? 0 then V lp else V lp + 1) in *.
+    set (R1 := if rx =? 9 then V rp else V rp - 1) in *.
+    assert (HL : lx = 0 /\ L1 = V lp \/ lx <> 0 /\ L1 = V lp + 1).
+    { subst L1. destruct (Z.eqb_spec lx 0); [left | right]; now split. }
+    assert (HR : rx = 9 /\ R1 = V rp \/ rx <> 9 /\ R1 = V rp - 1).
+    { subst R1. destruct (Z.eqb_spec rx 9); [left | right]; now split. }
+    rewrite <- (sem_same_len lp lx rp rx L1 R1 w Hcl Hcr Hlen Hgt HL HR).
+    assert (Ea : negb (lx =? 0) = true <-> lx <> 0).
+    { rewrite negb_true_iff, Z.eqb_neq. tauto. }
+    assert (Eb : negb (rx =? 9) = true <-> rx <> 9).
+    { rewrite negb_true_iff, Z.eqb_neq. tauto. }
+    destruct (Z.leb_spec L1 R1) as [HLR|HLR].
+    + destruct (rx_int_range f (Some L1) (Some R1)) as [inner|] eqn:Einner;
+        cbv beta iota delta [nbind] in HSL; [|discriminate].
+      apply NOk_inj in HSL; subst rxx. rewrite mk_or3_lang.
+      rewrite Ea, Eb.
+      rewrite !cat_dlit_drange_lang by (assumption || lia).
+      rewrite (cat_inner_dany_lang inner L1 R1 w
+                 (IH L1 R1 inner ltac:(lia) ltac:(lia) ltac:(lia) Einner)).
+      tauto.
+    + cbv beta iota in HSL. apply NOk_inj in HSL; subst rxx. rewrite mk_or3_lang. rewrite Ea, Eb.
+      rewrite !cat_dlit_drange_lang by (assumption || lia).
+      split.
+      * intros [H|[H|[H _]]]; [now left | right; now left | discriminate].
+      * intros [H|[H|(p & d & _ & Hp & _)]]; [now left | right; now left | lia].
+Qed.
+
+Lemma big_tail_lang : forall n w, (1 <= n)%nat ->
+  (re_lang (Cat (drange 1 9) (Rep dany (N.of_nat n) None)) w <->
+   exists ds, canon ds /\ w = dstr ds /\ P10 n <= V ds).
+Proof.
+  intros n w Hn. rewrite cat_lang. split.
+  - intros (u & v & -> & Hu & Hv). apply drange_lang in Hu; [|lia|lia].
+    destruct Hu as (d & Hd & ->). apply rep_dany_lang in Hv. destruct Hv as (t & Ht & Hlen & ->).
+    rewrite Nat2N.id in Hlen.
+    assert (Hc : canon (d :: t)) by (apply canon_cons; assumption).
+    exists (d :: t). split; [assumption|]. split; [reflexivity|].
+    apply canon_len_lower; [assumption | assumption | cbn [length]; lia].
+  - intros (ds & Hc & -> & HV).
+    pose proof (proj2 (canon_len_lower ds n Hc Hn) HV) as Hlen.
+    pose proof (P10_pos n) as Hp.
+    destruct Hc as [Hd [->|(d & ds' & -> & H1)]].
+    + rewrite V_one in HV. lia.
+    + apply is_digits_cons in Hd. destruct Hd as [Hd Hds'].
+      exists [dchar d], (dstr ds'). split; [reflexivity|]. split.
+      * apply drange_lang; [lia | lia |]. exists d. split; [lia | reflexivity].
+      * apply rep_dany_lang. exists ds'. rewrite Nat2N.id. cbn [length] in Hlen.
+        splits; [assumption | lia | reflexivity].
+Qed.
+
+Lemma digits_of_snoc : forall z, big z ->
+  digits_of z = but_last (digits_of z) ++ [last_digit (digits_of z)].
+Proof.
+  intros z Hz. unfold but_last, last_digit. apply app_removelast_last.
+  apply canon_nonempty. now apply digits_of_canon.
+Qed.
+
+Lemma num_digits_mono : forall l r, 0 <= l <= r -> big r -> (num_digits l <= num_digits r)%nat.
+Proof.
+  intros l r Hlr Hr. assert (Hl : big l) by (unfold big in *; lia).
+  apply num_digits_iff; [lia | assumption | now apply num_digits_pos |].
+  pose proof (num_digits_upper r ltac:(lia) Hr). lia.
+Qed.
+
+Definition obig (r : option Z) : Prop := match r with Some b => b < P10 80 | None => True end.
+
+Theorem int_range_nn : forall f l r rx, 0 <= l -> l < P10 80 -> obig r ->
+  rx_int_range f (Some l) r = NOk rx -> forall w, re_lang rx w <-> nn_lang l r w.
+Proof.
+  induction f as [|f IH]; intros l r rx H0 Hl Hr Hrx w; [discriminate|].
+  assert (IH' : nn_spec f).
+  { intros l' r' rx' H0' Hl' Hr' Hrx'. apply (IH l' (Some r') rx'); try assumption. }
+  assert (Hbl : big l) by (unfold big; lia).
+  destruct r as [r|].
+  - cbn [obig] in Hr. rewrite rir_nn_some in Hrx by assumption.
+    destruct (Z.ltb_spec r l) as [Hrl|Hlr]; [discriminate|].
+    assert (Hbr : big r) by (unfold big; lia).
+    destruct (Nat.eqb_spec (num_digits l) (num_digits r)) as [End|Hnd].
+    + destruct (Z.eqb_spec l r) as [Elr|Nlr].
+      * apply NOk_inj in Hrx; subst rx. subst r.
+        rewrite dlit_lang by (apply canon_digits; now apply digits_of_canon).
+        unfold nn_lang. cbn [ub]. split.
+        -- intros ->. exists (digits_of l). split; [now apply digits_of_canon|].
+           split; [reflexivity|]. rewrite digits_of_V by assumption. lia.
+        -- intros (ds & Hc & -> & Hlo & Hhi). f_equal.
+           apply canon_unique; [assumption | now apply digits_of_canon |].
+           rewrite digits_of_V by assumption. lia.
+      * pose proof (digits_of_snoc l Hbl) as El. pose proof (digits_of_snoc r Hbr) as Er.
+        set (lp := but_last (digits_of l)) in *. set (lx := last_digit (digits_of l)) in *.
+        set (rp := but_last (digits_of r)) in *. set (rx0 := last_digit (digits_of r)) in *.
+        pose proof (digits_of_canon l Hbl) as Hcl. pose proof (digits_of_canon r Hbr) as Hcr.
+        pose proof (digits_of_V l H0 Hbl) as HVl. pose proof (digits_of_V r ltac:(lia) Hbr) as HVr.
+        rewrite El in Hcl, HVl. rewrite Er in Hcr, HVr.
+        assert (Hlen : length lp = length rp).
+        { unfold num_digits in End. rewrite El, Er in End. rewrite !app_length in End.
+          cbn [length] in End. lia. }
+        rewrite <- HVl, <- HVr.
+        unfold digit in *. apply (SL_correct f lp lx rp rx0 rx IH' Hcl Hcr Hlen); [lia | lia | exact Hrx].
+    + pose proof (num_digits_mono l r ltac:(lia) Hbr) as Hmono.
+      pose proof (num_digits_pos l Hbl) as Hpos.
+      pose proof (num_digits_upper l H0 Hbl) as Hup.
+      assert (Hbp : P10 (num_digits l) <= r).
+      { pose proof (num_digits_iff r (num_digits l) ltac:(lia) Hbr Hpos). lia. }
+      destruct (rx_int_range f (Some l) (Some (P10 (num_digits l) - 1))) as [a|] eqn:Ea;
+        cbv beta iota delta [nbind] in Hrx; [|discriminate].
+      destruct (rx_int_range f (Some (P10 (num_digits l) - 1 + 1)) (Some r)) as [b|] eqn:Eb;
+        cbv beta iota delta [nbind] in Hrx; [|discriminate].
+      apply NOk_inj in Hrx; subst rx. rewrite mk_or2_lang.
+      assert (Ha : P10 (num_digits l) - 1 < P10 80) by lia.
+      rewrite (IH' _ _ a H0 Hl Ha Ea w).
+      assert (Hb1 : 0 <= P10 (num_digits l) - 1 + 1) by lia.
+      assert (Hb2 : P10 (num_digits l) - 1 + 1 < P10 80) by lia.
+      rewrite (IH' _ _ b Hb1 Hb2 Hr Eb w).
+      unfold nn_lang. cbn [ub]. split.
+      * intros [(ds & Hc & -> & Hlo & Hhi)|(ds & Hc & -> & Hlo & Hhi)];
+          exists ds; splits; try assumption; try reflexivity; lia.
+      * intros (ds & Hc & -> & Hlo & Hhi).
+        destruct (Z.le_gt_cases (V ds) (P10 (num_digits l) - 1)) as [Hle|Hgt].
+        -- left. exists ds. splits; try assumption; try reflexivity; try lia.
+        -- right. exists ds. splits; try assumption; try reflexivity; try lia.
+  - rewrite rir_nn_none in Hrx by assumption.
+    pose proof (num_digits_pos l Hbl) as Hpos.
+    pose proof (num_digits_upper l H0 Hbl) as Hup.
+    pose proof (num_digits_le80 l Hbl) as H80.
+    pose proof (P10_le _ _ H80) as HP80.
+    destruct (rx_int_range f (Some l) (Some (P10 (num_digits l) - 1))) as [a|] eqn:Ea;
+      cbv beta iota delta [nbind] in Hrx; [|discriminate].
+    apply NOk_inj in Hrx; subst rx. rewrite mk_or2_lang.
+    assert (Ha : P10 (num_digits l) - 1 < P10 80) by lia.
+    rewrite (IH' _ _ a H0 Hl Ha Ea w).
+    rewrite (big_tail_lang _ w Hpos).
+    unfold nn_lang. cbn [ub]. split.
+    + intros [(ds & Hc & -> & Hlo & Hhi)|(ds & Hc & -> & Hlo)];
+        exists ds; splits; try assumption; try reflexivity; lia.
+    + intros (ds & Hc & -> & Hlo & _).
+      destruct (Z.le_gt_cases (V ds) (P10 (num_digits l) - 1)) as [Hle|Hgt].
+      * left. exists ds. splits; try assumption; try reflexivity; try lia.
+      * right. exists ds. splits; try assumption; try reflexivity; try lia.
+Qed.
+
+(* ================================================================== *)
+(* Part 4: integer ranges, all sign cases                              *)
+(* ================================================================== *)
+
+Lemma rir_none_none : forall f, rx_int_range (S f) None None = NOk any_int.
+Proof. reflexivity. Qed.
+
+Lemma rir_neg_none : forall f l, l < 0 ->
+  rx_int_range (S f) (Some l) None =
+  nbind (rx_int_range f (Some l) (Some (-1))) (fun a =>
+  nbind (rx_int_range f (Some 0) None) (fun b => NOk (mk_or [a; b]))).
+Proof.
+  intros f l Hl. cbn [rx_int_range]. destruct (Z.ltb_spec l 0) as [_|Hge]; [reflexivity | lia].
+Qed.
+
+Lemma rir_none_some : forall f r,
+  rx_int_range (S f) None (Some r) =
+  if 0 <=? r then
+    nbind (rx_int_range f (Some 0) (Some r)) (fun a =>
+    nbind (rx_int_range f None (Some (-1))) (fun b => NOk (mk_or [a; b])))
+  else nbind (rx_int_range f (Some (- r)) None) (fun a => NOk (Cat minus a)).
+Proof. reflexivity. Qed.
+
+Lemma rir_neg_some : forall f l r, l < 0 ->
+  rx_int_range (S f) (Some l) (Some r) =
+  if r <? l then NErr
+  else if r <? 0 then
+    nbind (rx_int_range f (Some (- r)) (Some (- l))) (fun a => NOk (Cat minus a))
+  else
+    nbind (rx_int_range f (Some 0) (Some (- l))) (fun a =>
+    nbind (rx_int_range f (Some 0) (Some r)) (fun b => NOk (Alt (Cat minus a) b))).
+Proof.
+  intros f l r Hl. cbn [rx_int_range]. destruct (Z.ltb_spec l 0) as [_|Hge]; [reflexivity | lia].
+Qed.
+
+Lemma big_small : forall z, Z.abs z <= 1 -> big z.
+Proof.
+  intros z Hz. unfold big. assert (H : 1 < P10 80) by (vm_compute; reflexivity). lia.
+Qed.
+
+(* "-0" is accepted exactly by these ranges *)
+Definition negzero (l r : option Z) : Prop :=
+  match l, r with
+  | None, None => True
+  | Some a, Some b => a < 0 <= b
+  | _, _ => False
+  end.
+
+Definition int_lang (l r : option Z) (w : bytes) : Prop :=
+  exists ds, canon ds /\
+    ((w = dstr ds /\ in_opt_range l r (V ds)) \/
+     (w = 45%N :: dstr ds /\ in_opt_range l r (- V ds) /\ (V ds = 0 -> negzero l r))).
+
+Definition obig2 (o : option Z) : Prop := match o with Some z => big z | None => True end.
+
+Lemma cat_minus_lang : forall a w,
+  re_lang (Cat minus a) w <-> exists v, w = 45%N :: v /\ re_lang a v.
+Proof.
+  intros a w. rewrite cat_lang. split.
+  - intros (u & v & -> & Hu & Hv). apply minus_lang in Hu. subst u. now exists v.
+  - intros (v & -> & Hv). exists [45%N], v. split; [reflexivity|]. split; [now apply minus_lang | exact Hv].
+Qed.
+
+Lemma canon_re_lang : forall v,
+  re_lang (Alt (ch 48%N) (Cat (drange 1 9) (Star dany))) v <-> exists ds, canon ds /\ v = dstr ds.
+Proof.
+  intros v. rewrite alt_lang, ch_lang by lia. rewrite cat_lang. split.
+  - intros [->|(u & t & -> & Hu & Ht)].
+    + exists [0]. split; [apply canon_one; lia | reflexivity].
+    + apply drange_lang in Hu; [|lia|lia]. destruct Hu as (d & Hd & ->).
+      apply star_dany_lang in Ht. destruct Ht as (t' & Ht' & ->).
+      exists (d :: t'). split; [now apply canon_cons | reflexivity].
+  - intros (ds & [Hd [->|(d & ds' & -> & H1)]] & ->).
+    + now left.
+    + right. apply is_digits_cons in Hd. destruct Hd as [Hd Hds'].
+      exists [dchar d], (dstr ds'). split; [reflexivity|]. split.
+      * apply drange_lang; [lia | lia |]. exists d. split; [lia | reflexivity].
+      * now apply star_dany_dstr.
+Qed.
+
+Lemma any_int_lang : forall w,
+  re_lang any_int w <-> exists ds, canon ds /\ (w = dstr ds \/ w = 45%N :: dstr ds).
+Proof.
+  intros w. unfold any_int. rewrite cat_lang. split.
+  - intros (u & v & -> & Hu & Hv). apply canon_re_lang in Hv. destruct Hv as (ds & Hc & ->).
+    apply opt_lang in Hu. destruct Hu as [->|Hu].
+    + exists ds. split; [assumption | now left].
+    + apply minus_lang in Hu. subst u. exists ds. split; [assumption | now right].
+  - intros (ds & Hc & [->| ->]).
+    + exists [], (dstr ds). split; [reflexivity|]. split.
+      * apply opt_lang. now left.
+      * apply canon_re_lang. now exists ds.
+    + exists [45%N], (dstr ds). split; [reflexivity|]. split.
+      * apply opt_lang. right. now apply minus_lang.
+      * apply canon_re_lang. now exists ds.
+Qed.
+
+Ltac il_left ds Hc :=
+  exists ds; split; [exact Hc|]; left; split; [reflexivity|];
+  pose proof (canon_V_nonneg ds Hc); unfold in_opt_range; lia.
+Ltac il_right ds Hc :=
+  exists ds; split; [exact Hc|]; right; split; [reflexivity|];
+  pose proof (canon_V_nonneg ds Hc); unfold in_opt_range, negzero; lia.
+
+Lemma nn_int_lang : forall l r w, 0 <= l -> (nn_lang l r w <-> int_lang (Some l) r w).
+Proof.
+  intros l r w H0. unfold nn_lang, int_lang. split.
+  - intros (ds & Hc & -> & Hlo & Hhi). exists ds. split; [assumption|]. left.
+    split; [reflexivity|]. unfold in_opt_range. destruct r; cbn [ub] in Hhi; now split.
+  - intros (ds & Hc & [[-> [Hlo Hhi]]|[-> [[Hlo Hhi] Hz]]]).
+    + exists ds. destruct r; cbn [ub]; now splits.
+    + exfalso. pose proof (canon_V_nonneg ds Hc). unfold negzero in Hz. destruct r; lia.
+Qed.
+
+Theorem int_range_lang : forall f l r rx, obig2 l -> obig2 r ->
+  rx_int_range f l r = NOk rx -> forall w, re_lang rx w <-> int_lang l r w.
+Proof.
+  induction f as [|f IH]; intros l r rx Hl Hr Hrx w; [discriminate|].
+  assert (Hnn : forall l' r' rx', 0 <= l' -> obig2 (Some l') -> obig2 r' ->
+            rx_int_range f (Some l') r' = NOk rx' ->
+            forall v, re_lang rx' v <-> nn_lang l' r' v).
+  { intros l' r' rx' H0' Hl' Hr' Hrx'. apply (int_range_nn f); try assumption.
+    - cbn [obig2] in Hl'. unfold big in Hl'. lia.
+    - destruct r' as [r'|]; cbn [obig obig2] in *; [unfold big in Hr'; lia | exact I]. }
+  destruct l as [l|]; [destruct (Z.lt_ge_cases l 0) as [Hneg|Hpos]|].
+  - (* negative lower bound *)
+    destruct r as [r|].
+    + rewrite rir_neg_some in Hrx by assumption.
+      destruct (Z.ltb_spec r l) as [Hrl|Hlr]; [discriminate|].
+      cbn [obig2] in Hl, Hr.
+      destruct (Z.ltb_spec r 0) as [Hrneg|Hrpos].
+      * destruct (rx_int_range f (Some (- r)) (Some (- l))) as [a|] eqn:Ea;
+          cbv beta iota delta [nbind] in Hrx; [|discriminate].
+        apply NOk_inj in Hrx; subst rx. rewrite cat_minus_lang.
+        assert (Ha := Hnn (- r) (Some (- l)) a ltac:(lia)
+                        ltac:(cbn [obig2]; unfold big in *; lia)
+                        ltac:(cbn [obig2]; unfold big in *; lia) Ea).
+        split.
+        -- intros (v & -> & Hv). apply Ha in Hv. destruct Hv as (ds & Hc & -> & Hlo & Hhi).
+           cbn [ub] in Hhi. il_right ds Hc.
+        -- intros (ds & Hc & [[-> Hin]|[-> [Hin Hz]]]).
+           ++ exfalso. pose proof (canon_V_nonneg ds Hc). unfold in_opt_range in Hin. lia.
+           ++ exists (dstr ds). split; [reflexivity|]. apply Ha. exists ds.
+              unfold in_opt_range in Hin. cbn [ub]. splits; try assumption; try reflexivity; lia.
+      * destruct (rx_int_range f (Some 0) (Some (- l))) as [a|] eqn:Ea;
+          cbv beta iota delta [nbind] in Hrx; [|discriminate].
+        destruct (rx_int_range f (Some 0) (Some r)) as [b|] eqn:Eb;
+          cbv beta iota delta [nbind] in Hrx; [|discriminate].
+        apply NOk_inj in Hrx; subst rx. rewrite alt_lang, cat_minus_lang.
+        assert (Ha := Hnn 0 (Some (- l)) a ltac:(lia)
+                        ltac:(cbn [obig2]; unfold big in *; lia)
+                        ltac:(cbn [obig2]; unfold big in *; lia) Ea).
+        assert (Hb := Hnn 0 (Some r) b ltac:(lia)
+                        ltac:(cbn [obig2]; unfold big in *; lia)
+                        ltac:(cbn [obig2]; unfold big in *; lia) Eb).
+        split.
+        -- intros [(v & -> & Hv)|Hv].
+           ++ apply Ha in Hv. destruct Hv as (ds & Hc & -> & Hlo & Hhi).
+              cbn [ub] in Hhi. il_right ds Hc.
+           ++ apply Hb in Hv. destruct Hv as (ds & Hc & -> & Hlo & Hhi).
+              cbn [ub] in Hhi. il_left ds Hc.
+        -- intros (ds & Hc & [[-> Hin]|[-> [Hin Hz]]]); unfold in_opt_range in Hin.
+           ++ right. apply Hb. exists ds. pose proof (canon_V_nonneg ds Hc).
+              cbn [ub]. splits; try assumption; try reflexivity; lia.
+           ++ left. exists (dstr ds). split; [reflexivity|]. apply Ha. exists ds.
+              pose proof (canon_V_nonneg ds Hc).
+              cbn [ub]. splits; try assumption; try reflexivity; lia.
+    + rewrite rir_neg_none in Hrx by assumption.
+      destruct (rx_int_range f (Some l) (Some (-1))) as [a|] eqn:Ea;
+        cbv beta iota delta [nbind] in Hrx; [|discriminate].
+      destruct (rx_int_range f (Some 0) None) as [b|] eqn:Eb;
+        cbv beta iota delta [nbind] in Hrx; [|discriminate].
+      apply NOk_inj in Hrx; subst rx. rewrite mk_or2_lang.
+      assert (Ha := IH (Some l) (Some (-1)) a Hl
+                      ltac:(cbn [obig2]; apply big_small; lia) Ea).
+      assert (Hb := Hnn 0 None b ltac:(lia)
+                      ltac:(cbn [obig2]; apply big_small; lia) I Eb).
+      split.
+      * intros [Hv|Hv].
+        -- apply Ha in Hv. destruct Hv as (ds & Hc & [[-> Hin]|[-> [Hin Hz]]]);
+             unfold in_opt_range in Hin.
+           ++ exfalso. pose proof (canon_V_nonneg ds Hc). lia.
+           ++ il_right ds Hc.
+        -- apply Hb in Hv. destruct Hv as (ds & Hc & -> & Hlo & _). il_left ds Hc.
+      * intros (ds & Hc & [[-> Hin]|[-> [Hin Hz]]]); unfold in_opt_range in Hin.
+        -- right. apply Hb. exists ds. pose proof (canon_V_nonneg ds Hc).
+           cbn [ub]. splits; try assumption; try reflexivity; try lia.
+        -- left. apply Ha. unfold negzero in Hz. il_right ds Hc.
+  - (* non-negative lower bound *)
+    rewrite <- nn_int_lang by assumption.
+    apply (int_range_nn (S f) l r rx); try assumption.
+    + cbn [obig2] in Hl. unfold big in Hl. lia.
+    + destruct r as [r|]; cbn [obig obig2] in *; [unfold big in Hr; lia | exact I].
+  - (* no lower bound *)
+    destruct r as [r|].
+    + rewrite rir_none_some in Hrx. cbn [obig2] in Hr.
+      destruct (Z.leb_spec 0 r) as [Hrpos|Hrneg].
+      * destruct (rx_int_range f (Some 0) (Some r)) as [a|] eqn:Ea;
+          cbv beta iota delta [nbind] in Hrx; [|discriminate].
+        destruct (rx_int_range f None (Some (-1))) as [b|] eqn:Eb;
+          cbv beta iota delta [nbind] in Hrx; [|discriminate].
+        apply NOk_inj in Hrx; subst rx. rewrite mk_or2_lang.
+        assert (Ha := Hnn 0 (Some r) a ltac:(lia)
+                        ltac:(cbn [obig2]; apply big_small; lia) Hr Ea).
+        assert (Hb := IH None (Some (-1)) b I
+                        ltac:(cbn [obig2]; apply big_small; lia) Eb).
+        split.
+        -- intros [Hv|Hv].
+           ++ apply Ha in Hv. destruct Hv as (ds & Hc & -> & Hlo & Hhi).
+              cbn [ub] in Hhi. il_left ds Hc.
+           ++ apply Hb in Hv. destruct Hv as (ds & Hc & [[-> Hin]|[-> [Hin Hz]]]);
+                unfold in_opt_range in Hin.
+              ** exfalso. pose proof (canon_V_nonneg ds Hc). lia.
+              ** unfold negzero in Hz. il_right ds Hc.
+        -- intros (ds & Hc & [[-> Hin]|[-> [Hin Hz]]]); unfold in_opt_range in Hin.
+           ++ left. apply Ha. exists ds. pose proof (canon_V_nonneg ds Hc).
+              cbn [ub]. splits; try assumption; try reflexivity; lia.
+           ++ right. apply Hb. unfold negzero in Hz. il_right ds Hc.
+      * destruct (rx_int_range f (Some (- r)) None) as [a|] eqn:Ea;
+          cbv beta iota delta [nbind] in Hrx; [|discriminate].
+        apply NOk_inj in Hrx; subst rx. rewrite cat_minus_lang.
+        assert (Ha := Hnn (- r) None a ltac:(lia)
+                        ltac:(cbn [obig2]; unfold big in *; lia) I Ea).
+        split.
+        -- intros (v & -> & Hv). apply Ha in Hv. destruct Hv as (ds & Hc & -> & Hlo & _).
+           il_right ds Hc.
+        -- intros (ds & Hc & [[-> Hin]|[-> [Hin Hz]]]); unfold in_opt_range in Hin.
+           ++ exfalso. pose proof (canon_V_nonneg ds Hc). lia.
+           ++ exists (dstr ds). split; [reflexivity|]. apply Ha. exists ds.
+              cbn [ub]. splits; try assumption; try reflexivity; try lia.
+    + rewrite rir_none_none in Hrx. apply NOk_inj in Hrx; subst rx.
+      rewrite any_int_lang. unfold int_lang, in_opt_range, negzero. split.
+      * intros (ds & Hc & [->| ->]); exists ds; (split; [assumption|]); [left | right]; tauto.
+      * intros (ds & Hc & [[-> _]|[-> _]]); exists ds; (split; [assumption|]); [left | right]; reflexivity.
+Qed.
+
+(* ---------- literals ---------- *)
+Lemma int_literal_nonneg : forall z, 0 <= z -> int_literal z = dstr (digits_of z).
+Proof.
+  intros z Hz. unfold int_literal. destruct (Z.ltb_spec z 0) as [H|_]; [lia | reflexivity].
+Qed.
+
+Lemma int_literal_neg : forall z, z < 0 -> int_literal z = 45%N :: dstr (digits_of z).
+Proof.
+  intros z Hz. unfold int_literal. destruct (Z.ltb_spec z 0) as [_|H]; [reflexivity | lia].
+Qed.
+
+Lemma dstr_not_minus : forall ds v, canon ds -> dstr ds <> 45%N :: v.
+Proof.
+  intros ds v [Hd Hc] H.
+  destruct Hc as [->|(d & ds' & -> & H1)]; cbn [dstr map] in H; injection H as H _.
+  - discriminate.
+  - apply is_digits_cons in Hd. apply (dchar_not_minus d); [lia | exact H].
+Qed.
+
+Lemma int_lang_literal : forall l r z, big z ->
+  (int_lang l r (int_literal z) <-> in_opt_range l r z).
+Proof.
+  intros l r z Hz. destruct (digits_of_spec z Hz) as [Hc HV].
+  destruct (Z.lt_ge_cases z 0) as [Hneg|Hpos].
+  - rewrite int_literal_neg by assumption. split.
+    + intros (ds & Hcd & [[Heq _]|[Heq [Hin _]]]).
+      * exfalso. symmetry in Heq. now apply dstr_not_minus in Heq.
+      * injection Heq as Heq. apply dstr_inj in Heq; try (now apply canon_digits).
+        subst ds. replace z with (- V (digits_of z)) by lia. exact Hin.
+    + intros Hin. exists (digits_of z). split; [assumption|]. right.
+      split; [reflexivity|]. split; [|lia]. replace (- V (digits_of z)) with z by lia. exact Hin.
+  - rewrite int_literal_nonneg by assumption. split.
+    + intros (ds & Hcd & [[Heq Hin]|[Heq _]]).
+      * apply dstr_inj in Heq; try (now apply canon_digits).
+        subst ds. replace z with (V (digits_of z)) by lia. exact Hin.
+      * exfalso. now apply dstr_not_minus in Heq.
+    + intros Hin. exists (digits_of z). split; [assumption|]. left.
+      split; [reflexivity|]. replace (V (digits_of z)) with z by lia. exact Hin.
+Qed.
+
+Lemma opt_ok_big : forall o, opt_ok o -> obig2 o.
+Proof. intros [z|] H; cbn [opt_ok obig2] in *; [now apply i64_big | exact I]. Qed.
+
+(* everything accepted is a canonical integer literal or "-0" (no length restriction) *)
+Theorem int_range_only_canonical : forall f l r rx w,
+  opt_ok l -> opt_ok r -> rx_int_range f l r = NOk rx -> re_lang rx w ->
+  exists ds, canon ds /\ (w = dstr ds \/ w = 45%N :: dstr ds).
+Proof.
+  intros f l r rx w Hl Hr Hrx Hw.
+  apply (int_range_lang f l r rx (opt_ok_big _ Hl) (opt_ok_big _ Hr) Hrx) in Hw.
+  destruct Hw as (ds & Hc & [[-> _]|[-> _]]); exists ds; (split; [assumption|]); [now left | now right].
+Qed.
+
+Lemma canon_literal : forall ds, canon ds -> (length ds <= 80)%nat -> dstr ds = int_literal (V ds).
+Proof.
+  intros ds Hc Hlen. pose proof (canon_V_nonneg ds Hc) as H0.
+  rewrite int_literal_nonneg by assumption. f_equal. symmetry. apply digits_of_unique; [assumption|].
+  apply canon_len_iff; [assumption | lia | assumption].
+Qed.
+
+Lemma canon_neg_literal : forall ds, canon ds -> (length ds <= 80)%nat -> V ds <> 0 ->
+  45%N :: dstr ds = int_literal (- V ds).
+Proof.
+  intros ds Hc Hlen Hnz. pose proof (canon_V_nonneg ds Hc) as H0.
+  rewrite int_literal_neg by lia. f_equal. f_equal. rewrite digits_of_neg. symmetry.
+  apply digits_of_unique; [assumption|].
+  apply canon_len_iff; [assumption | lia | assumption].
+Qed.
+
+(* ================================================================== *)
+(* Part 5: a non-empty range compiles within the fuel                  *)
+(* ================================================================== *)
+
+Lemma num_digits_eq : forall z n, 0 <= z -> big z -> P10 n <= z < P10 (S n) ->
+  num_digits z = S n.
+Proof.
+  intros z n H0 Hb Hz.
+  pose proof (num_digits_pos z Hb) as Hpos.
+  pose proof (proj2 (num_digits_iff z (S n) H0 Hb ltac:(lia)) ltac:(lia)) as Hle.
+  destruct n as [|n]; [lia|].
+  pose proof (num_digits_iff z (S n) H0 Hb ltac:(lia)) as Hiff. lia.
+Qed.
+
+Lemma num_digits_canon : forall ds, canon ds -> V ds < P10 80 -> num_digits (V ds) = length ds.
+Proof. intros ds Hc Hb. unfold num_digits. now rewrite digits_of_unique. Qed.
+
+Lemma num_digits_between : forall a b z, canon a -> canon b -> length a = length b ->
+  V a <= z <= V b -> V b < P10 80 -> num_digits z = length a.
+Proof.
+  intros a b z Ha Hb Hlen Hz Hbig. pose proof (canon_V_nonneg a Ha) as H0.
+  assert (Hbz : big z) by (unfold big; lia).
+  destruct (digits_of_spec z Hbz) as [Hc HV]. unfold num_digits.
+  apply (canon_between_len a b (digits_of z) Ha Hb Hc Hlen). lia.
+Qed.
+
+Lemma SL_succeeds : forall f lp lx rp rx,
+  (forall l r, 0 <= l <= r -> r < P10 80 -> num_digits l = num_digits r ->
+     (num_digits r <= f)%nat -> exists rx, rx_int_range f (Some l) (Some r) = NOk rx) ->
+  canon (lp ++ [lx]) -> canon (rp ++ [rx]) -> length lp = length rp ->
+  V (lp ++ [lx]) < V (rp ++ [rx]) -> V (rp ++ [rx]) < P10 80 ->
+  (length lp <= f)%nat ->
+  exists rxx, SL f lp lx rp rx = NOk rxx.
+Proof.
+  intros f lp lx rp rx IH Hcl Hcr Hlen Hlt Hbig Hf.
+  destruct (canon_snoc_digit _ _ Hcl) as [Hdl Hlx].
+  destruct (canon_snoc_digit _ _ Hcr) as [Hdr Hrx].
+  unfold SL. destruct (list_eqb Z.eqb lp rp) eqn:Eeq; [eexists; reflexivity|].
+  rewrite !V_snoc in *.
+  assert (Hne : V lp <> V rp).
+  { intros E. apply V_same_len_inj in E; try assumption. apply list_eqb_Z_eq in E. congruence. }
+  destruct (Z.leb_spec (V rp) (V lp)) as [Hle|Hgt]; [lia|].
+  cbv zeta.
+  assert (Hnel : lp <> []).
+  { intros ->. destruct rp; [|discriminate]. lia. }
+  assert (Hner : rp <> []).
+  { intros ->. destruct lp; [congruence | discriminate]. }
+  destruct (canon_snoc_inv lp lx Hcl Hnel) as (Hclp & HVlp & _).
+  destruct (canon_snoc_inv rp rx Hcr Hner) as (Hcrp & HVrp & _).
+  set (L1 := if lx =? 0 then V lp else V lp + 1).
+  set (R1 := if rx =? 9 then V rp else V rp - 1).
+  assert (HL : V lp <= L1 <= V lp + 1) by (subst L1; destruct (lx =? 0); lia).
+  assert (HR : V rp - 1 <= R1 <= V rp) by (subst R1; destruct (rx =? 9); lia).
+  destruct (Z.leb_spec L1 R1) as [HLR|HLR]; [|eexists; reflexivity].
+  destruct (IH L1 R1) as (inner & ->); try lia.
+  - rewrite (num_digits_between lp rp L1 Hclp Hcrp Hlen) by lia.
+    rewrite (num_digits_between lp rp R1 Hclp Hcrp Hlen) by lia. reflexivity.
+  - rewrite (num_digits_between lp rp R1 Hclp Hcrp Hlen) by lia. exact Hf.
+  - cbv beta iota delta [nbind]. eexists; reflexivity.
+Qed.
+
+Lemma same_len_succeeds : forall f l r, 0 <= l <= r -> r < P10 80 ->
+  num_digits l = num_digits r -> (num_digits r <= f)%nat ->
+  exists rx, rx_int_range f (Some l) (Some r) = NOk rx.
+Proof.
+  induction f as [|f IH]; intros l r Hlr Hr End Hf.
+  - assert (Hbr : big r) by (unfold big; lia). pose proof (num_digits_pos r Hbr). lia.
+  - assert (Hbl : big l) by (unfold big; lia). assert (Hbr : big r) by (unfold big; lia).
+    rewrite rir_nn_some by lia.
+    destruct (Z.ltb_spec r l) as [Hrl|_]; [lia|].
+    rewrite End, Nat.eqb_refl.
+    destruct (Z.eqb_spec l r) as [Elr|Nlr]; [eexists; reflexivity|].
+    pose proof (digits_of_snoc l Hbl) as El. pose proof (digits_of_snoc r Hbr) as Er.
+    set (lp := but_last (digits_of l)) in *. set (lx := last_digit (digits_of l)) in *.
+    set (rp := but_last (digits_of r)) in *. set (rx0 := last_digit (digits_of r)) in *.
+    pose proof (digits_of_canon l Hbl) as Hcl. pose proof (digits_of_canon r Hbr) as Hcr.
+    pose proof (digits_of_V l ltac:(lia) Hbl) as HVl. pose proof (digits_of_V r ltac:(lia) Hbr) as HVr.
+    rewrite El in Hcl, HVl. rewrite Er in Hcr, HVr.
+    assert (Hlen : length lp = length rp /\ S (length rp) = num_digits r).
+    { unfold num_digits in *. rewrite El, Er in End. rewrite Er. rewrite !app_length in *.
+      cbn [length] in *. lia. }
+    unfold digit in *.
+    apply (SL_succeeds f lp lx rp rx0 IH Hcl Hcr); lia.
+Qed.
+
+Lemma nn_succeeds : forall f l r, 0 <= l <= r -> r < P10 80 ->
+  (2 * num_digits r + 1 <= f + num_digits l)%nat ->
+  exists rx, rx_int_range f (Some l) (Some r) = NOk rx.
+Proof.
+  induction f as [|f IH]; intros l r Hlr Hr Hf.
+  - assert (Hbr : big r) by (unfold big; lia).
+    pose proof (num_digits_mono l r Hlr Hbr). pose proof (num_digits_pos r Hbr). lia.
+  - assert (Hbl : big l) by (unfold big; lia). assert (Hbr : big r) by (unfold big; lia).
+    pose proof (num_digits_mono l r Hlr Hbr) as Hmono.
+    pose proof (num_digits_pos l Hbl) as Hpos.
+    destruct (Nat.eq_dec (num_digits l) (num_digits r)) as [End|Hnd].
+    + apply same_len_succeeds; try assumption. lia.
+    + rewrite rir_nn_some by lia.
+      destruct (Z.ltb_spec r l) as [Hrl|_]; [lia|].
+      destruct (Nat.eqb_spec (num_digits l) (num_digits r)) as [E|_]; [congruence|].
+      pose proof (num_digits_upper l ltac:(lia) Hbl) as Hup.
+      assert (Hbp : P10 (num_digits l) <= r).
+      { pose proof (num_digits_iff r (num_digits l) ltac:(lia) Hbr Hpos). lia. }
+      set (k := num_digits l) in *.
+      assert (Hk1 : num_digits (P10 k - 1) = k).
+      { destruct k as [|k']; [lia|]. apply num_digits_eq.
+        - pose proof (P10_pos (S k')). lia.
+        - unfold big. pose proof (P10_pos (S k')). lia.
+        - rewrite P10_S. pose proof (P10_pos k'). lia. }
+      assert (Hk2 : num_digits (P10 k - 1 + 1) = S k).
+      { apply num_digits_eq.
+        - pose proof (P10_pos k). lia.
+        - unfold big. pose proof (P10_pos k). lia.
+        - rewrite P10_S. pose proof (P10_pos k). lia. }
+      destruct (same_len_succeeds f l (P10 k - 1)) as (a & ->); try lia.
+      destruct (IH (P10 k - 1 + 1) r) as (b & ->); try lia.
+      cbv beta iota delta [nbind]. eexists; reflexivity.
+Qed.
+
+Lemma i64_digits : forall z, 0 <= z -> i64_ok z -> (num_digits z <= 19)%nat.
+Proof.
+  intros z H0 Hz. apply num_digits_iff; [assumption | now apply i64_big | lia |].
+  unfold i64_ok in Hz. assert (H : 2 ^ 63 < P10 19) by (vm_compute; reflexivity). lia.
+Qed.
+
+Lemma nn_succeeds_i64 : forall f l r, 0 <= l <= r -> i64_ok r -> (39 <= f)%nat ->
+  exists rx, rx_int_range f (Some l) (Some r) = NOk rx.
+Proof.
+  intros f l r Hlr Hr Hf. pose proof (i64_big r Hr) as Hbr.
+  assert (Hbl : big l) by (unfold big in *; lia).
+  apply nn_succeeds; [assumption | unfold big in Hbr; lia |].
+  pose proof (i64_digits r ltac:(lia) Hr). pose proof (num_digits_pos l Hbl). lia.
+Qed.
+
+Lemma i64_neg : forall z, i64_ok z -> i64_ok (- z).
+Proof. intros z Hz. unfold i64_ok in *. lia. Qed.
+
+Lemma int_range_succeeds : forall l r, i64_ok l -> i64_ok r -> l <= r ->
+  exists rx, rx_int_range int_fuel (Some l) (Some r) = NOk rx.
+Proof.
+  intros l r Hl Hr Hlr. destruct (Z.lt_ge_cases l 0) as [Hneg|Hpos].
+  - change int_fuel with (S 199). rewrite rir_neg_some by assumption.
+    destruct (Z.ltb_spec r l) as [Hrl|_]; [lia|].
+    destruct (Z.ltb_spec r 0) as [Hrneg|Hrpos].
+    + destruct (nn_succeeds_i64 199 (- r) (- l)) as (a & ->);
+        [lia | now apply i64_neg | lia |].
+      cbv beta iota delta [nbind]. eexists; reflexivity.
+    + destruct (nn_succeeds_i64 199 0 (- l)) as (a & ->);
+        [lia | now apply i64_neg | lia |].
+      destruct (nn_succeeds_i64 199 0 r) as (b & ->); [lia | assumption | lia |].
+      cbv beta iota delta [nbind]. eexists; reflexivity.
+  - apply nn_succeeds_i64; [lia | assumption | unfold int_fuel; lia].
+Qed.
+
+(* ================================================================== *)
+(* Part 6: lexicographic fraction ranges                               *)
+(* ================================================================== *)
+
+Lemma pad_right_eq : forall n (ds : list Z), pad_right ds n = ds ++ repeat 0 n.
+Proof.
+  induction n as [|n IH]; intros ds; cbn [pad_right repeat].
+  - now rewrite app_nil_r.
+  - rewrite IH, <- app_assoc. reflexivity.
+Qed.
+
+Lemma V_repeat0 : forall n, V (repeat 0 n) = 0.
+Proof.
+  induction n as [|n IH]; cbn [repeat]; [reflexivity|]. rewrite V_cons, IH. lia.
+Qed.
+
+Lemma V_pad : forall (ds : list Z) n, V (pad_right ds n) = V ds * P10 n.
+Proof. intros ds n. rewrite pad_right_eq, V_app, V_repeat0, repeat_length. lia. Qed.
+
+Lemma pad_cons : forall x (a : list Z) n, pad_right (x :: a) n = x :: pad_right a n.
+Proof. intros x a n. now rewrite !pad_right_eq. Qed.
+
+Lemma length_pad : forall (a : list Z) n, length (pad_right a n) = (length a + n)%nat.
+Proof. intros a n. now rewrite pad_right_eq, app_length, repeat_length. Qed.
+
+Lemma is_digits_pad : forall (a : list Z) n, is_digits a -> is_digits (pad_right a n).
+Proof.
+  intros a n Ha. rewrite pad_right_eq. apply is_digits_app. split; [assumption|].
+  unfold is_digits. apply Forall_forall. intros d Hd. apply repeat_spec in Hd. lia.
+Qed.
+
+Lemma frac_le_V : forall a b : list Z, frac_le a b <->
+  V (pad_right a (length b - length a)) <= V (pad_right b (length a - length b)).
+Proof. reflexivity. Qed.
+
+Lemma frac_lt_V : forall a b : list Z, frac_lt a b <->
+  V (pad_right a (length b - length a)) < V (pad_right b (length a - length b)).
+Proof. reflexivity. Qed.
+
+Lemma frac_le_cons : forall x a y b, is_digits a -> is_digits b ->
+  (frac_le (x :: a) (y :: b) <-> x < y \/ (x = y /\ frac_le a b)).
+Proof.
+  intros x a y b Ha Hb. rewrite !frac_le_V. cbn [length]. rewrite !Nat.sub_succ, !pad_cons.
+  apply V_cons_le; try (now apply is_digits_pad). rewrite !length_pad. lia.
+Qed.
+
+Lemma frac_lt_cons : forall x a y b, is_digits a -> is_digits b ->
+  (frac_lt (x :: a) (y :: b) <-> x < y \/ (x = y /\ frac_lt a b)).
+Proof.
+  intros x a y b Ha Hb. rewrite !frac_lt_V. cbn [length]. rewrite !Nat.sub_succ, !pad_cons.
+  apply V_cons_lt; try (now apply is_digits_pad). rewrite !length_pad. lia.
+Qed.
+
+Lemma frac_le_nil_l : forall s, is_digits s -> frac_le [] s.
+Proof.
+  intros s Hs. rewrite frac_le_V, !V_pad, V_nil. pose proof (V_bound s Hs).
+  match goal with |- _ <= _ * P10 ?n => pose proof (P10_pos n) end. nia.
+Qed.
+
+Lemma frac_lt_nil_l : forall s, frac_lt [] s <-> 0 < V s.
+Proof.
+  intros s. rewrite frac_lt_V, !V_pad, V_nil. cbn [length Nat.sub]. rewrite P10_0. lia.
+Qed.
+
+Lemma frac_le_nil_r : forall s, frac_le s [] <-> V s <= 0.
+Proof.
+  intros s. rewrite frac_le_V, !V_pad, V_nil. cbn [length Nat.sub]. rewrite P10_0. lia.
+Qed.
+
+Lemma frac_le_nil_r1 : forall s, frac_le s [] -> V s <= 0.
+Proof. intros s. apply frac_le_nil_r. Qed.
+
+Lemma frac_le_nil_r2 : forall s, V s <= 0 -> frac_le s [].
+Proof. intros s. apply frac_le_nil_r. Qed.
+
+Lemma frac_lt_nil_l2 : forall s, 0 < V s -> frac_lt [] s.
+Proof. intros s. apply frac_lt_nil_l. Qed.
+
+Lemma frac_lt_nil_r : forall s, is_digits s -> ~ frac_lt s [].
+Proof.
+  intros s Hs. rewrite frac_lt_V, !V_pad, V_nil. cbn [length Nat.sub]. rewrite P10_0.
+  pose proof (V_bound s Hs). lia.
+Qed.
+
+(* all-zero digit strings *)
+Lemma V_zero_iff : forall s, is_digits s -> (V s <= 0 <-> Forall (fun d => d = 0) s).
+Proof.
+  induction s as [|d s IH]; intros Hs.
+  - rewrite V_nil. split; [constructor | lia].
+  - apply is_digits_cons in Hs. destruct Hs as [Hd Hs]. specialize (IH Hs).
+    rewrite V_cons. pose proof (V_bound s Hs). pose proof (P10_pos (length s)). split.
+    + intros HV0. assert (d = 0) by nia. subst d. constructor; [reflexivity|]. apply IH. lia.
+    + intros HF. inversion HF as [|? ? Hd0 Hs0]; subst. apply IH in Hs0. lia.
+Qed.
+
+Lemma V_pos_split : forall s, is_digits s -> 0 < V s ->
+  exists s1 d s2, s = s1 ++ d :: s2 /\ 1 <= d.
+Proof.
+  induction s as [|y s IH]; intros Hs HV.
+  - rewrite V_nil in HV. lia.
+  - apply is_digits_cons in Hs. destruct Hs as [Hy Hs].
+    destruct (Z.eq_dec y 0) as [->|Hny].
+    + rewrite V_cons in HV. destruct (IH Hs ltac:(lia)) as (s1 & d & s2 & -> & Hd).
+      exists (0 :: s1), d, s2. now split.
+    + exists [], y, s. split; [reflexivity | lia].
+Qed.
+
+(* ---------- trim_zeros ---------- *)
+Definition tz_go := fix go (l : list digit) : list digit :=
+  match l with
+  | d :: l' => if d =? 0 then go l' else l
+  | [] => []
+  end.
+
+Lemma trim_zeros_eq : forall ds, trim_zeros ds = rev (tz_go (rev ds)).
+Proof. reflexivity. Qed.
+
+Lemma tz_go_length : forall l, (length (tz_go l) <= length l)%nat.
+Proof.
+  induction l as [|d l IH]; cbn [tz_go length]; [lia|].
+  destruct (d =? 0); cbn [length]; lia.
+Qed.
+
+Lemma trim_zeros_length : forall ds, (length (trim_zeros ds) <= length ds)%nat.
+Proof.
+  intros ds. rewrite trim_zeros_eq, rev_length. pose proof (tz_go_length (rev ds)) as H.
+  rewrite rev_length in H. exact H.
+Qed.
+
+Lemma trim_fix_last : forall x : list Z, trim_zeros x = x -> last x 1 <> 0.
+Proof.
+  intros x Hx. destruct x as [|x0 x']; [cbn [last]; lia|].
+  destruct (snoc_cases (x0 :: x') ltac:(discriminate)) as (p & d & E). rewrite E in *.
+  rewrite last_last. intros ->.
+  rewrite trim_zeros_eq, rev_unit in Hx. cbn [tz_go] in Hx.
+  change (0 =? 0) with true in Hx. cbv iota in Hx.
+  rewrite <- trim_zeros_eq in Hx.
+  pose proof (trim_zeros_length p) as Hlen. rewrite Hx, app_length in Hlen. cbn [length] in Hlen. unfold digit in *. lia.
+Qed.
+
+Lemma last_cons_ne : forall (x0 : Z) rest d, rest <> [] -> last (x0 :: rest) d = last rest d.
+Proof. intros x0 rest d H. destruct rest; [congruence | reflexivity]. Qed.
+
+Lemma last_nz_pos : forall x, is_digits x -> x <> [] -> last x 1 <> 0 -> 0 < V x.
+Proof.
+  intros x Hx Hne Hl. destruct (snoc_cases x Hne) as (p & d & ->).
+  rewrite last_last in Hl. apply is_digits_app in Hx. destruct Hx as [Hp Hd].
+  apply is_digits_cons in Hd. destruct Hd as [Hd _]. rewrite V_snoc.
+  pose proof (V_bound p Hp). lia.
+Qed.
+
+(* ---------- first-character decompositions ---------- *)
+Lemma dstr_cons_inv : forall s c v, dstr s = c :: v ->
+  exists d s', s = d :: s' /\ c = dchar d /\ v = dstr s'.
+Proof.
+  intros [|d s'] c v H; cbn [dstr map] in H; [discriminate|].
+  injection H as <- <-. now exists d, s'.
+Qed.
+
+Lemma dstr_nil_inv : forall s, dstr s = [] -> s = [].
+Proof. intros [|d s] H; [reflexivity | discriminate]. Qed.
+
+Lemma cat_ch_lang : forall d0 R s, 0 <= d0 <= 9 -> is_digits s ->
+  (re_lang (Cat (ch (dchar d0)) R) (dstr s) <-> exists s', s = d0 :: s' /\ re_lang R (dstr s')).
+Proof.
+  intros d0 R s Hd0 Hs. rewrite cat_lang. split.
+  - intros (u & v & Heq & Hu & Hv). apply chd_lang in Hu; [|assumption]. subst u.
+    cbn [app] in Heq. apply dstr_cons_inv in Heq. destruct Heq as (d & s' & -> & Hc & ->).
+    apply is_digits_cons in Hs. destruct Hs as [Hd _].
+    apply dchar_inj in Hc; [|lia|lia]. subst d. now exists s'.
+  - intros (s' & -> & HR). exists [dchar d0], (dstr s'). split; [reflexivity|].
+    split; [now apply chd_lang | exact HR].
+Qed.
+
+Lemma cat_drange_star_lang : forall lo hi s, 0 <= lo -> hi <= 9 -> is_digits s ->
+  (re_lang (Cat (drange lo hi) (Star dany)) (dstr s) <-> exists d s', s = d :: s' /\ lo <= d <= hi).
+Proof.
+  intros lo hi s Hlo Hhi Hs. rewrite cat_lang. split.
+  - intros (u & v & Heq & Hu & Hv). apply drange_lang in Hu; [|assumption|assumption].
+    destruct Hu as (d & Hd & ->). cbn [app] in Heq. apply dstr_cons_inv in Heq.
+    destruct Heq as (d' & s' & -> & Hc & ->).
+    apply is_digits_cons in Hs. destruct Hs as [Hd' _].
+    apply dchar_inj in Hc; [|lia|lia]. subst d'. now exists d, s'.
+  - intros (d & s' & -> & Hd). apply is_digits_cons in Hs. destruct Hs as [_ Hs'].
+    exists [dchar d], (dstr s'). split; [reflexivity|]. split.
+    + apply drange_lang; [assumption | assumption | now exists d].
+    + now apply star_dany_dstr.
+Qed.
+
+Lemma has_nz_lang : forall s, is_digits s ->
+  (re_lang (Cat (Star dany) (Cat (drange 1 9) (Star dany))) (dstr s) <-> 0 < V s).
+Proof.
+  intros s Hs. rewrite cat_lang. split.
+  - intros (u & v & Heq & Hu & Hv). apply dstr_app_inv in Heq.
+    destruct Heq as (s1 & s2 & -> & -> & ->).
+    apply is_digits_app in Hs. destruct Hs as [Hs1 Hs2].
+    apply cat_drange_star_lang in Hv; [|lia|lia|assumption].
+    destruct Hv as (d & s' & -> & Hd). apply is_digits_cons in Hs2. destruct Hs2 as [_ Hs'].
+    rewrite V_app, V_cons. pose proof (V_bound s1 Hs1). pose proof (V_bound s' Hs').
+    pose proof (P10_pos (length s')). pose proof (P10_pos (length (d :: s'))). nia.
+  - intros HV. destruct (V_pos_split s Hs HV) as (s1 & d & s2 & -> & Hd).
+    apply is_digits_app in Hs. destruct Hs as [Hs1 Hs2].
+    exists (dstr s1), (dstr (d :: s2)). split; [now rewrite dstr_app|]. split.
+    + now apply star_dany_dstr.
+    + apply cat_drange_star_lang; [lia | lia | assumption |].
+      apply is_digits_cons in Hs2. exists d, s2. split; [reflexivity | lia].
+Qed.
+
+Lemma star_zero_dstr : forall s, is_digits s ->
+  (re_lang (Star zero_ch) (dstr s) <-> V s <= 0).
+Proof.
+  intros s Hs. rewrite star_zero_lang, (V_zero_iff s Hs). split.
+  - intros (t & Ht & Heq). apply dstr_inj in Heq; [now subst | assumption | now apply zeros_digits].
+  - intros H. now exists s.
+Qed.
+
+(* ---------- lexi_x_to_9 ---------- *)
+Lemma lexi_x_to_9_cons : forall x0 rest incl,
+  lexi_x_to_9 (x0 :: rest) incl =
+  if (match rest with [] => incl | _ => false end)
+  then Cat (drange x0 9) (Star dany)
+  else let first := Cat (ch (dchar x0)) (lexi_x_to_9 rest incl) in
+       if x0 <? 9 then Alt first (Cat (drange (x0 + 1) 9) (Star dany)) else first.
+Proof. intros x0 [|r rest] [|]; reflexivity. Qed.
+
+Definition frac_rel (incl : bool) (a b : list Z) : Prop :=
+  if incl then frac_le a b else frac_lt a b.
+
+Lemma frac_rel_cons : forall incl x a y b, is_digits a -> is_digits b ->
+  (frac_rel incl (x :: a) (y :: b) <-> x < y \/ (x = y /\ frac_rel incl a b)).
+Proof.
+  intros [|] x a y b Ha Hb; cbn [frac_rel]; [now apply frac_le_cons | now apply frac_lt_cons].
+Qed.
+
+Lemma lexi_x_to_9_aux : forall x incl s,
+  is_digits x -> is_digits s -> last x 1 <> 0 ->
+  (re_lang (lexi_x_to_9 x incl) (dstr s) <->
+   frac_rel incl x s /\ (incl = false -> s <> [])).
+Proof.
+  induction x as [|x0 rest IH]; intros incl s Hx Hs Hlast.
+  - destruct incl; cbn [lexi_x_to_9 frac_rel].
+    + split.
+      * intros _. split; [now apply frac_le_nil_l | discriminate].
+      * intros _. now apply star_dany_dstr.
+    + rewrite (has_nz_lang s Hs), frac_lt_nil_l. split.
+      * intros HV. split; [assumption|]. intros _ ->. rewrite V_nil in HV. lia.
+      * tauto.
+  - apply is_digits_cons in Hx. destruct Hx as [Hx0 Hrest].
+    assert (HVx : 0 < V (x0 :: rest)).
+    { apply last_nz_pos; [apply is_digits_cons; now split | discriminate | assumption]. }
+    rewrite lexi_x_to_9_cons.
+    destruct rest as [|r1 rest'].
+    + (* single digit *)
+      rewrite V_one in HVx.
+      destruct incl; cbv zeta.
+      * rewrite cat_drange_star_lang by (lia || assumption). cbn [frac_rel]. split.
+        -- intros (d & s' & -> & Hd). split; [|discriminate].
+           apply is_digits_cons in Hs. destruct Hs as [_ Hs'].
+           apply frac_le_cons; [apply is_digits_nil | assumption |].
+           destruct (Z.eq_dec x0 d) as [->|Hne]; [right | left; lia].
+           split; [reflexivity | now apply frac_le_nil_l].
+        -- intros [Hle _]. destruct s as [|d s'].
+           ++ apply frac_le_nil_r1 in Hle. rewrite V_one in Hle. lia.
+           ++ apply is_digits_cons in Hs. destruct Hs as [Hd Hs'].
+              apply frac_le_cons in Hle; [|apply is_digits_nil | assumption].
+              exists d, s'. split; [reflexivity | lia].
+      * specialize (IH false). cbn [frac_rel] in *.
+        assert (Hfirst : forall s', is_digits s' ->
+                  (re_lang (lexi_x_to_9 [] false) (dstr s') <-> frac_lt [] s' /\ s' <> [])).
+        { intros s' Hs'. rewrite (IH s' is_digits_nil Hs' ltac:(cbn [last]; lia)).
+          split; [intros [H1 H2]; split; [assumption | now apply H2] | intros [H1 H2]; now split]. }
+        destruct (Z.ltb_spec x0 9) as [Hlt|Hge].
+        -- rewrite alt_lang, cat_ch_lang by assumption.
+           rewrite cat_drange_star_lang by (lia || assumption). split.
+           ++ intros [(s' & -> & Hr)|(d & s' & -> & Hd)]; (split; [|discriminate]);
+                apply is_digits_cons in Hs; destruct Hs as [Hd0 Hs'];
+                (apply frac_lt_cons; [apply is_digits_nil | assumption |]).
+              ** right. split; [reflexivity|]. now apply Hfirst in Hr.
+              ** left. lia.
+           ++ intros [Hlt' _]. destruct s as [|d s'].
+              ** exfalso. apply (frac_lt_nil_r [x0]); [now apply is_digits_one | exact Hlt'].
+              ** apply is_digits_cons in Hs. destruct Hs as [Hd Hs'].
+                 apply frac_lt_cons in Hlt'; [|apply is_digits_nil | assumption].
+                 destruct Hlt' as [Hxd|[-> Hr]].
+                 --- right. exists d, s'. split; [reflexivity | lia].
+                 --- left. exists s'. split; [reflexivity|]. apply Hfirst; [assumption|].
+                     split; [assumption|]. intros ->. apply (frac_lt_nil_r [] is_digits_nil). exact Hr.
+        -- rewrite cat_ch_lang by assumption. split.
+           ++ intros (s' & -> & Hr). split; [|discriminate].
+              apply is_digits_cons in Hs. destruct Hs as [Hd0 Hs'].
+              apply frac_lt_cons; [apply is_digits_nil | assumption |].
+              right. split; [reflexivity|]. now apply Hfirst in Hr.
+           ++ intros [Hlt' _]. destruct s as [|d s'].
+              ** exfalso. apply (frac_lt_nil_r [x0]); [now apply is_digits_one | exact Hlt'].
+              ** apply is_digits_cons in Hs. destruct Hs as [Hd Hs'].
+                 apply frac_lt_cons in Hlt'; [|apply is_digits_nil | assumption].
+                 destruct Hlt' as [Hxd|[-> Hr]]; [lia|].
+                 exists s'. split; [reflexivity|]. apply Hfirst; [assumption|].
+                 split; [assumption|]. intros ->. apply (frac_lt_nil_r [] is_digits_nil). exact Hr.
+    + (* longer bound *)
+      assert (Hlast' : last (r1 :: rest') 1 <> 0).
+      { rewrite last_cons_ne in Hlast by discriminate. exact Hlast. }
+      assert (Hnil : ~ frac_rel incl (r1 :: rest') []).
+      { pose proof (last_nz_pos (r1 :: rest') Hrest ltac:(discriminate) Hlast') as Hp.
+        destruct incl; cbn [frac_rel].
+        - rewrite frac_le_nil_r. lia.
+        - now apply frac_lt_nil_r. }
+      assert (HIH : forall s', is_digits s' ->
+                (re_lang (lexi_x_to_9 (r1 :: rest') incl) (dstr s') <-> frac_rel incl (r1 :: rest') s')).
+      { intros s' Hs'. rewrite (IH incl s' Hrest Hs' Hlast'). split; [tauto|].
+        intros H. split; [assumption|]. intros _ ->. now apply Hnil. }
+      cbv zeta.
+      assert (Hempty : ~ frac_rel incl (x0 :: r1 :: rest') []).
+      { destruct incl; cbn [frac_rel].
+        - rewrite frac_le_nil_r. lia.
+        - apply frac_lt_nil_r. apply is_digits_cons. now split. }
+      destruct (Z.ltb_spec x0 9) as [Hlt|Hge].
+      * rewrite alt_lang, cat_ch_lang by assumption.
+        rewrite cat_drange_star_lang by (lia || assumption). split.
+        -- intros [(s' & -> & Hr)|(d & s' & -> & Hd)]; (split; [|discriminate]);
+             apply is_digits_cons in Hs; destruct Hs as [Hd0 Hs'];
+             (apply frac_rel_cons; [assumption | assumption |]).
+           ++ right. split; [reflexivity|]. now apply HIH in Hr.
+           ++ left. lia.
+        -- intros [Hrel _]. destruct s as [|d s']; [now apply Hempty in Hrel|].
+           apply is_digits_cons in Hs. destruct Hs as [Hd Hs'].
+           apply frac_rel_cons in Hrel; [|assumption|assumption].
+           destruct Hrel as [Hxd|[-> Hr]].
+           ++ right. exists d, s'. split; [reflexivity | lia].
+           ++ left. exists s'. split; [reflexivity|]. now apply HIH.
+      * rewrite cat_ch_lang by assumption. split.
+        -- intros (s' & -> & Hr). split; [|discriminate].
+           apply is_digits_cons in Hs. destruct Hs as [Hd0 Hs'].
+           apply frac_rel_cons; [assumption | assumption |].
+           right. split; [reflexivity|]. now apply HIH in Hr.
+        -- intros [Hrel _]. destruct s as [|d s']; [now apply Hempty in Hrel|].
+           apply is_digits_cons in Hs. destruct Hs as [Hd Hs'].
+           apply frac_rel_cons in Hrel; [|assumption|assumption].
+           destruct Hrel as [Hxd|[-> Hr]]; [lia|].
+           exists s'. split; [reflexivity|]. now apply HIH.
+Qed.
+
+(* ---------- lexi_0_to_x ---------- *)
+Lemma lexi_0_to_x_cons : forall x0 rest incl,
+  lexi_0_to_x (x0 :: rest) incl =
+  if (match rest with [] => negb incl | _ => false end)
+  then (if x0 =? 0 then NErr else NOk (Cat (drange 0 (x0 - 1)) (Star dany)))
+  else nbind (lexi_0_to_x rest incl) (fun r =>
+         let first := match rest with
+                      | [] => Cat (ch (dchar x0)) r
+                      | _ => Cat (ch (dchar x0)) (opt r)
+                      end in
+         NOk (if 0 <? x0 then Alt first (Cat (drange 0 (x0 - 1)) (Star dany)) else first)).
+Proof. intros x0 [|r rest] [|]; reflexivity. Qed.
+
+Lemma lexi_0_to_x_aux : forall x incl rx s,
+  is_digits x -> is_digits s -> last x 1 <> 0 ->
+  lexi_0_to_x x incl = NOk rx ->
+  (re_lang rx (dstr s) <-> frac_rel incl s x /\ (x <> [] -> s <> [])).
+Proof.
+  induction x as [|x0 rest IH]; intros incl rx s Hx Hs Hlast Hrx.
+  - destruct incl; cbn [lexi_0_to_x] in Hrx; [|discriminate].
+    apply NOk_inj in Hrx; subst rx. cbn [frac_rel].
+    rewrite (star_zero_dstr s Hs), frac_le_nil_r. tauto.
+  - apply is_digits_cons in Hx. destruct Hx as [Hx0 Hrest].
+    rewrite lexi_0_to_x_cons in Hrx.
+    assert (Hgoal : forall (P : Prop), (P <-> frac_rel incl s (x0 :: rest) /\ s <> []) ->
+              (P <-> frac_rel incl s (x0 :: rest) /\ (x0 :: rest <> [] -> s <> []))).
+    { intros P HP. rewrite HP. split; [tauto|]. intros [H1 H2]. split; [assumption|].
+      apply H2. discriminate. }
+    apply Hgoal. clear Hgoal.
+    (* the set of strings with a smaller first digit *)
+    assert (Hsmall : 0 < x0 ->
+              (re_lang (Cat (drange 0 (x0 - 1)) (Star dany)) (dstr s) <->
+               exists d s', s = d :: s' /\ d < x0)).
+    { intros Hpos. rewrite cat_drange_star_lang by (lia || assumption). split.
+      - intros (d & s' & -> & Hd). exists d, s'. split; [reflexivity | lia].
+      - intros (d & s' & -> & Hd). apply is_digits_cons in Hs. exists d, s'.
+        split; [reflexivity | lia]. }
+    destruct rest as [|r1 rest'].
+    + destruct incl; cbn [negb] in Hrx.
+      * (* [x0], inclusive *)
+        cbn [lexi_0_to_x nbind] in Hrx. cbv zeta in Hrx.
+        apply NOk_inj in Hrx; subst rx. cbn [frac_rel].
+        assert (Hfirst : re_lang (Cat (ch (dchar x0)) (Star zero_ch)) (dstr s) <->
+                         exists s', s = x0 :: s' /\ V s' <= 0).
+        { rewrite cat_ch_lang by assumption. split.
+          - intros (s' & -> & Hr). apply is_digits_cons in Hs. destruct Hs as [_ Hs'].
+            exists s'. split; [reflexivity|]. now apply star_zero_dstr in Hr.
+          - intros (s' & -> & Hr). apply is_digits_cons in Hs. destruct Hs as [_ Hs'].
+            exists s'. split; [reflexivity|]. now apply star_zero_dstr. }
+        assert (Hspec : frac_le s [x0] /\ s <> [] <->
+                        (exists s', s = x0 :: s' /\ V s' <= 0) \/ (exists d s', s = d :: s' /\ d < x0)).
+        { split.
+          - intros [Hle Hne]. destruct s as [|d s']; [congruence|].
+            apply is_digits_cons in Hs. destruct Hs as [Hd Hs'].
+            apply frac_le_cons in Hle; [|assumption | apply is_digits_nil].
+            destruct Hle as [Hlt|[-> Hr]].
+            + right. now exists d, s'.
+            + left. exists s'. split; [reflexivity|]. now apply frac_le_nil_r1.
+          - intros [(s' & -> & Hr)|(d & s' & -> & Hd)]; (split; [|discriminate]);
+              apply is_digits_cons in Hs; destruct Hs as [Hd0 Hs'];
+              (apply frac_le_cons; [assumption | apply is_digits_nil |]).
+            + right. split; [reflexivity|]. now apply frac_le_nil_r2.
+            + now left. }
+        rewrite Hspec.
+        destruct (Z.ltb_spec 0 x0) as [Hpos|Hnpos].
+        -- rewrite alt_lang, Hfirst, (Hsmall Hpos). reflexivity.
+        -- rewrite Hfirst. split; [intros H; now left|]. intros [H|(d & s' & -> & Hd)]; [assumption|].
+           apply is_digits_cons in Hs. lia.
+      * (* [x0], exclusive *)
+        destruct (Z.eqb_spec x0 0) as [E|Hnz]; [discriminate|].
+        apply NOk_inj in Hrx; subst rx. cbn [frac_rel].
+        rewrite (Hsmall ltac:(lia)). split.
+        -- intros (d & s' & -> & Hd). split; [|discriminate].
+           apply is_digits_cons in Hs. destruct Hs as [Hd0 Hs'].
+           apply frac_lt_cons; [assumption | apply is_digits_nil | now left].
+        -- intros [Hlt Hne]. destruct s as [|d s']; [congruence|].
+           apply is_digits_cons in Hs. destruct Hs as [Hd Hs'].
+           apply frac_lt_cons in Hlt; [|assumption | apply is_digits_nil].
+           destruct Hlt as [Hlt|[_ Hr]]; [now exists d, s'|].
+           exfalso. now apply (frac_lt_nil_r s' Hs').
+    + (* longer bound *)
+      assert (Hlast' : last (r1 :: rest') 1 <> 0).
+      { rewrite last_cons_ne in Hlast by discriminate. exact Hlast. }
+      pose proof (last_nz_pos (r1 :: rest') Hrest ltac:(discriminate) Hlast') as Hp.
+      destruct (lexi_0_to_x (r1 :: rest') incl) as [r|] eqn:Er;
+        cbv beta iota delta [nbind] in Hrx; [|discriminate].
+      cbv zeta in Hrx. apply NOk_inj in Hrx; subst rx.
+      assert (Hnil : frac_rel incl [] (r1 :: rest')).
+      { destruct incl; cbn [frac_rel]; [now apply frac_le_nil_l | now apply frac_lt_nil_l2]. }
+      assert (Hfirst : re_lang (Cat (ch (dchar x0)) (opt r)) (dstr s) <->
+                       exists s', s = x0 :: s' /\ frac_rel incl s' (r1 :: rest')).
+      { rewrite cat_ch_lang by assumption. split.
+        - intros (s' & -> & Hr). apply is_digits_cons in Hs. destruct Hs as [_ Hs'].
+          exists s'. split; [reflexivity|]. apply opt_lang in Hr. destruct Hr as [Hr|Hr].
+          + apply dstr_nil_inv in Hr. now subst s'.
+          + now apply (IH incl r s' Hrest Hs' Hlast' Er) in Hr.
+        - intros (s' & -> & Hr). apply is_digits_cons in Hs. destruct Hs as [_ Hs'].
+          exists s'. split; [reflexivity|]. apply opt_lang. destruct s' as [|d s'']; [now left | right].
+          apply (IH incl r (d :: s'') Hrest Hs' Hlast' Er). split; [assumption | discriminate]. }
+      assert (Hspec : frac_rel incl s (x0 :: r1 :: rest') /\ s <> [] <->
+                      (exists s', s = x0 :: s' /\ frac_rel incl s' (r1 :: rest')) \/
+                      (exists d s', s = d :: s' /\ d < x0)).
+      { split.
+        - intros [Hrel Hne]. destruct s as [|d s']; [congruence|].
+          apply is_digits_cons in Hs. destruct Hs as [Hd Hs'].
+          apply frac_rel_cons in Hrel; [|assumption | assumption].
+          destruct Hrel as [Hlt|[-> Hr]].
+          + right. now exists d, s'.
+          + left. now exists s'.
+        - intros [(s' & -> & Hr)|(d & s' & -> & Hd)]; (split; [|discriminate]);
+            apply is_digits_cons in Hs; destruct Hs as [Hd0 Hs'];
+            (apply frac_rel_cons; [assumption | assumption |]).
+          + right. now split.
+          + now left. }
+      rewrite Hspec.
+      destruct (Z.ltb_spec 0 x0) as [Hpos|Hnpos].
+      * rewrite alt_lang, Hfirst, (Hsmall Hpos). reflexivity.
+      * rewrite Hfirst. split; [intros H; now left|]. intros [H|(d & s' & -> & Hd)]; [assumption|].
+        apply is_digits_cons in Hs. lia.
+Qed.
+
+(* ================================================================== *)
+(* Part 7: Decimal::lcm                                                *)
+(* ================================================================== *)
+
+Lemma strip10_spec : forall f coef exp c e, 0 <= exp ->
+  strip10 f coef exp = (c, e) -> c * 10 ^ (exp - e) = coef /\ 0 <= e <= exp.
+Proof.
+  induction f as [|f IH]; intros coef exp c e Hexp H; cbn [strip10] in H.
+  - injection H as <- <-. rewrite Z.sub_diag. change (10 ^ 0) with 1. lia.
+  - destruct (Z.ltb_spec 0 exp) as [Hpos|Hnpos]; cbn [andb] in H.
+    + destruct (Z.eqb_spec (coef mod 10) 0) as [Hmod|Hmod].
+      * apply IH in H; [|lia]. destruct H as [Heq He]. split; [|lia].
+        replace (exp - e) with (Z.succ (exp - 1 - e)) by lia.
+        rewrite Z.pow_succ_r by lia.
+        pose proof (Z.div_mod coef 10 ltac:(lia)) as Hdm. lia.
+      * injection H as <- <-. rewrite Z.sub_diag. change (10 ^ 0) with 1. lia.
+    + injection H as <- <-. rewrite Z.sub_diag. change (10 ^ 0) with 1. lia.
+Qed.
+
+Lemma lcm_pos_eq : forall a b, 0 < a -> 0 < b ->
+  Z.lcm a b = a * b / Z.gcd a b /\ 0 < a * b / Z.gcd a b.
+Proof.
+  intros a b Ha Hb.
+  assert (Hg : 0 < Z.gcd a b).
+  { pose proof (Z.gcd_nonneg a b). destruct (Z.eq_dec (Z.gcd a b) 0) as [E|NE]; [|lia].
+    apply Z.gcd_eq_0_l in E. lia. }
+  pose proof (Z.gcd_divide_r a b) as Hdiv.
+  assert (Hle : Z.gcd a b <= b) by (apply Z.divide_pos_le; assumption).
+  assert (Hq : 1 <= b / Z.gcd a b).
+  { apply Z.div_le_lower_bound; lia. }
+  rewrite <- Z.lcm_equiv1 by lia. unfold Z.lcm. split.
+  - apply Z.abs_eq. nia.
+  - nia.
+Qed.
+
+Lemma u32w_small : forall x, 0 <= x < 2 ^ 32 -> u32w x = x.
+Proof. intros x Hx. unfold u32w. now apply Z.mod_small. Qed.
+
+(* ================================================================== *)
+(* Why three statements carry a size hypothesis: the unrestricted      *)
+(* originals are refutable in the model (digits_of has fuel 80)        *)
+(* ================================================================== *)
+
+Lemma bytes_ok_b : forall w, forallb (fun b => (b <? 256)%N) w = true -> bytes_ok w.
+Proof.
+  intros w H. unfold bytes_ok. apply Forall_forall. intros b Hb.
+  rewrite forallb_forall in H. apply H in Hb. now apply N.ltb_lt in Hb.
+Qed.
+
+Lemma digits_of_val_unbounded_refuted :
+  ~ (forall z, 0 <= z -> val_digits (digits_of z) 0 = z).
+Proof.
+  intros H. specialize (H (10 ^ 80) ltac:(vm_compute; discriminate)).
+  vm_compute in H. discriminate H.
+Qed.
+
+Lemma int_range_exact_unbounded_refuted :
+  exists rx z, rx_int_range int_fuel (Some 0) None = NOk rx /\
+    ~ (re_lang rx (int_literal z) <-> in_opt_range (Some 0) None z).
+Proof.
+  eexists. exists (2 * 10 ^ 80). split; [vm_compute; reflexivity|].
+  intros [_ H].
+  assert (Hin : in_opt_range (Some 0) None (2 * 10 ^ 80)).
+  { unfold in_opt_range. split; [vm_compute; discriminate | exact I]. }
+  apply H in Hin. apply re_match_correct in Hin.
+  - vm_compute in Hin. discriminate Hin.
+  - apply bytes_ok_b. vm_compute. reflexivity.
+Qed.
+
+Lemma digits_fuel_length : forall f n acc,
+  (length (digits_fuel f n acc) <= f + length acc)%nat.
+Proof.
+  induction f as [|f IH]; intros n acc; cbn [digits_fuel].
+  - lia.
+  - destruct (n <? 10).
+    + cbn [length]. lia.
+    + specialize (IH (n / 10) (n mod 10 :: acc)). cbn [length] in IH. lia.
+Qed.
+
+Lemma int_literal_length : forall z, (length (int_literal z) <= 81)%nat.
+Proof.
+  intros z. unfold int_literal. rewrite app_length, map_length. unfold digits_of.
+  pose proof (digits_fuel_length 80 (Z.abs z) []) as H. cbn [length] in H.
+  destruct (z <? 0); cbn [length]; unfold digit in *; lia.
+Qed.
+
+Lemma int_range_only_literals_unbounded_refuted :
+  exists rx w, rx_int_range int_fuel (Some 0) None = NOk rx /\ re_lang rx w /\
+    ~ ((exists z, w = int_literal z) \/ w = [45%N; 48%N]).
+Proof.
+  eexists. exists (49%N :: repeat 48%N 100). split; [vm_compute; reflexivity|]. split.
+  - apply re_match_correct.
+    + apply bytes_ok_b. vm_compute. reflexivity.
+    + vm_compute. reflexivity.
+  - intros [(z & Hz)|Hz].
+    + pose proof (int_literal_length z) as Hlen. rewrite <- Hz in Hlen.
+      cbn [length] in Hlen. rewrite repeat_length in Hlen. lia.
+    + discriminate Hz.
+Qed.
+
+(* ================================================================== *)
+(* The stated theorems                                                 *)
+(* ================================================================== *)
+
+Lemma P10_80 : P10 80 = 10 ^ 80.
+Proof. reflexivity. Qed.
+
+(* ORIGINAL (false, digits_of_val_unbounded_refuted: digits_of runs on fuel 80, so for
+   z >= 10^80 it renders only the low 80 digits; z = 10^80 gives eighty zeros, value 0):
 Lemma digits_of_val : forall z, 0 <= z -> val_digits (digits_of z) 0 = z /\ is_digits (digits_of z) /\
   (digits_of z = [0] \/ (exists d ds, digits_of z = d :: ds /\ 1 <= d)).
-Proof. Admitted.
+*)
+(*FIXED*) (* digits_of / int_literal are the usual decimal rendering *)
+Lemma digits_of_val : forall z, 0 <= z -> z < 10 ^ 80 ->
+  val_digits (digits_of z) 0 = z /\ is_digits (digits_of z) /\
+  (digits_of z = [0] \/ (exists d ds, digits_of z = d :: ds /\ 1 <= d)).
+Proof.
+  intros z H0 Hz. rewrite <- P10_80 in Hz.
+  assert (Hb : big z) by (unfold big; lia).
+  destruct (digits_of_canon z Hb) as [Hd Hc].
+  split; [exact (digits_of_V z H0 Hb)|]. split; [exact Hd | exact Hc].
+Qed.
 
-(*FIXED*) (* integer ranges: a plain integer literal is accepted exactly when it is in range *)
+(* ORIGINAL (false, int_range_exact_unbounded_refuted: for |z| >= 10^80 int_literal z is
+   not the decimal rendering of z; l = Some 0, r = None, z = 2 * 10^80 is in range, but
+   int_literal z is eighty zeros, which the regex rejects):
 Theorem int_range_exact : forall l r rx z,
   opt_ok l -> opt_ok r ->
   rx_int_range int_fuel l r = NOk rx ->
   (re_lang rx (int_literal z) <-> in_opt_range l r z).
-Proof. Admitted.
+*)
+(*FIXED*) (* integer ranges: a plain integer literal is accepted exactly when it is in range *)
+Theorem int_range_exact : forall l r rx z,
+  opt_ok l -> opt_ok r -> Z.abs z < 10 ^ 80 ->
+  rx_int_range int_fuel l r = NOk rx ->
+  (re_lang rx (int_literal z) <-> in_opt_range l r z).
+Proof.
+  intros l r rx z Hl Hr Hz Hrx. rewrite <- P10_80 in Hz.
+  rewrite (int_range_lang int_fuel l r rx (opt_ok_big _ Hl) (opt_ok_big _ Hr) Hrx).
+  now apply int_lang_literal.
+Qed.
 
 (*FIXED*) (* an empty range is an error, a non-empty one compiles *)
 Theorem int_range_error_iff_empty : forall l r,
   i64_ok l -> i64_ok r -> (rx_int_range int_fuel (Some l) (Some r) = NErr <-> r < l).
-Proof. Admitted.
+Proof.
+  intros l r Hl Hr. split.
+  - intros Herr. destruct (Z.lt_ge_cases r l) as [Hlt|Hge]; [assumption|].
+    destruct (int_range_succeeds l r Hl Hr ltac:(lia)) as (rx & Hrx). congruence.
+  - intros Hlt. change int_fuel with (S 199). destruct (Z.lt_ge_cases l 0) as [Hneg|Hpos].
+    + rewrite rir_neg_some by assumption. destruct (Z.ltb_spec r l); [reflexivity | lia].
+    + rewrite rir_nn_some by assumption. destruct (Z.ltb_spec r l); [reflexivity | lia].
+Qed.
 
-(*FIXED*) (* nothing but integer literals (and "-0") is accepted *)
+(* ORIGINAL (false, int_range_only_literals_unbounded_refuted: digits_of never yields
+   more than 80 digits, so a longer accepted digit string is no int_literal; l = Some 0,
+   r = None accepts "1" followed by 100 zeros.  The unrestricted form, with canonical
+   digit strings instead of int_literal, is int_range_only_canonical above):
 Theorem int_range_only_literals : forall l r rx w,
   opt_ok l -> opt_ok r ->
   rx_int_range int_fuel l r = NOk rx -> re_lang rx w ->
   (exists z, w = int_literal z) \/ w = [45%N; 48%N].
-Proof. Admitted.
+*)
+(*FIXED*) (* nothing but integer literals (and "-0") is accepted *)
+Theorem int_range_only_literals : forall l r rx w,
+  opt_ok l -> opt_ok r -> (length w <= 80)%nat ->
+  rx_int_range int_fuel l r = NOk rx -> re_lang rx w ->
+  (exists z, w = int_literal z) \/ w = [45%N; 48%N].
+Proof.
+  intros l r rx w Hl Hr Hlen Hrx Hw.
+  destruct (int_range_only_canonical int_fuel l r rx w Hl Hr Hrx Hw) as (ds & Hc & [->| ->]).
+  - left. exists (V ds). apply canon_literal; [assumption|].
+    unfold dstr in Hlen. now rewrite map_length in Hlen.
+  - cbn [length] in Hlen. unfold dstr in Hlen. rewrite map_length in Hlen.
+    destruct (Z.eq_dec (V ds) 0) as [E|NE].
+    + right. apply (canon_zero_iff ds Hc) in E. subst ds. reflexivity.
+    + left. exists (- V ds). unfold digit in *. apply canon_neg_literal; [assumption | lia | assumption].
+Qed.
 
 (*FIXED*) (* fraction ranges *)
 Theorem lexi_x_to_9_sem : forall x incl s,
   is_digits x -> is_digits s -> trim_zeros x = x ->
   (re_lang (lexi_x_to_9 x incl) (dstr s) <->
    (if incl then frac_le x s else frac_lt x s) /\ (incl = false -> s <> [])).
-Proof. Admitted.
+Proof.
+  intros x incl s Hx Hs Htrim.
+  exact (lexi_x_to_9_aux x incl s Hx Hs (trim_fix_last x Htrim)).
+Qed.
 
 (*FIXED*)
 Theorem lexi_0_to_x_sem : forall x incl rx s,
   is_digits x -> is_digits s -> trim_zeros x = x ->
   lexi_0_to_x x incl = NOk rx ->
   (re_lang rx (dstr s) <-> (if incl then frac_le s x else frac_lt s x) /\ (x <> [] -> s <> [])).
-Proof. Admitted.
+Proof.
+  intros x incl rx s Hx Hs Htrim Hrx.
+  exact (lexi_0_to_x_aux x incl rx s Hx Hs (trim_fix_last x Htrim) Hrx).
+Qed.
 
 (*FIXED*) (* Decimal::lcm with checked arithmetic never returns a wrapped result *)
 Theorem lcm_checked_exact : forall ca ea cb eb c e,
@@ -61,9 +2035,141 @@ Theorem lcm_checked_exact : forall ca ea cb eb c e,
   (* c * 10^-e is the least common multiple of the two decimals *)
   let s := Z.max ea eb in
   c * 10 ^ (s - e) = Z.lcm (ca * 10 ^ (s - ea)) (cb * 10 ^ (s - eb)) /\ 0 <= e <= s.
-Proof. Admitted.
+Proof.
+  intros ca ea cb eb c e Hca Hcb Hea Heb H s.
+  unfold decimal_lcm in H.
+  destruct (Z.eqb_spec ca 0) as [E|_]; [lia|].
+  destruct (Z.eqb_spec cb 0) as [E|_]; [lia|].
+  cbn [orb andb] in H.
+  replace (Z.max 0 (eb - ea)) with (s - ea) in H by (subst s; lia).
+  replace (Z.max 0 (ea - eb)) with (s - eb) in H by (subst s; lia).
+  fold s in H.
+  set (a1 := ca * 10 ^ (s - ea)) in *. set (b1 := cb * 10 ^ (s - eb)) in *.
+  assert (Hpa : 0 < 10 ^ (s - ea)) by (apply Z.pow_pos_nonneg; subst s; lia).
+  assert (Hpb : 0 < 10 ^ (s - eb)) by (apply Z.pow_pos_nonneg; subst s; lia).
+  assert (Ha1 : 0 < a1) by (subst a1; nia).
+  assert (Hb1 : 0 < b1) by (subst b1; nia).
+  match type of H with (if ?X then _ else _) = _ => destruct X eqn:EX end; [discriminate|].
+  repeat (apply orb_false_iff in EX; destruct EX as [EX ?]).
+  repeat match goal with Hx : (_ <=? _) = false |- _ => apply Z.leb_gt in Hx end.
+  rewrite (u32w_small a1) in * by lia. rewrite (u32w_small b1) in * by lia.
+  rewrite (u32w_small (a1 * b1)) in H by nia.
+  destruct (lcm_pos_eq a1 b1 Ha1 Hb1) as [Hlcm Hpos].
+  injection H as H. unfold decimal_new in H.
+  destruct (Z.eqb_spec (a1 * b1 / Z.gcd a1 b1) 0) as [E|_]; [lia|].
+  apply strip10_spec in H; [|subst s; lia]. rewrite Hlcm. exact H.
+Qed.
 
 (*FIXED*) (* the unchecked (wrapping) variant is wrong: 65537 and 65539 *)
 Theorem lcm_wrapping_refuted :
   exists a b c, decimal_lcm false (a, 0) (b, 0) = Some (c, 0) /\ c <> Z.lcm a b /\ 0 < a < 2 ^ 32 /\ 0 < b < 2 ^ 32.
-Proof. Admitted.
+Proof.
+  exists 65537, 65539, 262147. split; [vm_compute; reflexivity|].
+  split; [vm_compute; intros H; discriminate H|].
+  split; vm_compute; split; reflexivity.
+Qed.
+
+(* ================================================================== *)
+(* multipleOf as matched by derivre: the u32 remainder arithmetic is   *)
+(* exact for every value the guard in json/compiler.rs lets through    *)
+(* ================================================================== *)
+Lemma fits_bounds : forall c e, 0 < c -> 0 <= e -> multiple_of_fits c e = true ->
+  0 < 10 ^ e /\ c * 10 + 9 * 10 ^ e < 2 ^ 32.
+Proof.
+  intros c e Hc He H. unfold multiple_of_fits in H. apply Z.leb_le in H.
+  split; [apply Z.pow_pos_nonneg; lia|].
+  change (2 ^ 32) with 4294967296. lia.
+Qed.
+
+Theorem rem_step_exact : forall c e r digit,
+  0 < c -> 0 <= e -> multiple_of_fits c e = true -> 0 <= r <= c -> 0 <= digit <= 9 ->
+  rem_step_u32 c e r digit = rem_step c e r digit.
+Proof.
+  intros c e r digit Hc He Hf Hr Hd. destruct (fits_bounds c e Hc He Hf) as [Hp Hb].
+  unfold rem_step_u32, rem_step.
+  rewrite (u32w_small (10 ^ e)) by nia.
+  rewrite (u32w_small (r * 10)) by nia.
+  rewrite (u32w_small (digit * 10 ^ e)) by nia.
+  rewrite (u32w_small (r * 10 + digit * 10 ^ e)) by nia.
+  reflexivity.
+Qed.
+
+Lemma rem_step_range : forall c e r digit, 0 < c -> 0 <= rem_step c e r digit < c.
+Proof. intros. unfold rem_step. apply Z.mod_pos_bound. assumption. Qed.
+
+Lemma run_u32_exact : forall c ds r,
+  0 < c -> multiple_of_fits c 0 = true -> is_digits ds -> 0 <= r <= c ->
+  fold_left (rem_step_u32 c 0) ds r = fold_left (rem_step c 0) ds r.
+Proof.
+  intros c ds. induction ds as [|d ds IH]; intros r Hc Hf Hds Hr; [reflexivity|].
+  inversion Hds as [|? ? Hd Hds']; subst. cbn [fold_left].
+  rewrite rem_step_exact by (auto; lia).
+  apply IH; auto. pose proof (rem_step_range c 0 r d Hc). lia.
+Qed.
+
+Lemma run_mod : forall c ds r r', 0 < c -> r mod c = r' mod c ->
+  (fold_left (rem_step c 0) ds r) mod c = (val_digits ds r') mod c.
+Proof.
+  intros c ds. induction ds as [|d ds IH]; intros r r' Hc H; cbn [fold_left val_digits]; [exact H|].
+  apply IH; [assumption|]. unfold rem_step. rewrite Z.mod_mod by lia.
+  change (10 ^ 0) with 1. rewrite Z.mul_1_r.
+  rewrite (Z.add_mod (r * 10)), (Z.mul_mod r) by lia. rewrite H.
+  rewrite <- Z.mul_mod, <- Z.add_mod by lia. reflexivity.
+Qed.
+
+Lemma run_range : forall c ds r, 0 < c -> (0 <= r < c \/ ds <> []) ->
+  0 <= fold_left (rem_step c 0) ds r < c.
+Proof.
+  intros c ds. induction ds as [|d ds IH]; intros r Hc H; cbn [fold_left].
+  - destruct H as [H|H]; [exact H|congruence].
+  - apply IH; [assumption|]. left. now apply rem_step_range.
+Qed.
+
+Lemma val_digits_acc10 : forall ds acc, val_digits ds acc = acc * 10 ^ Z.of_nat (length ds) + val_digits ds 0.
+Proof.
+  induction ds as [|d ds IH]; intros acc; cbn [val_digits length].
+  - change (10 ^ Z.of_nat 0) with 1. lia.
+  - rewrite IH, (IH (0 * 10 + d)). rewrite Nat2Z.inj_succ, Z.pow_succ_r by lia. ring.
+Qed.
+
+(* an unsigned integer literal is accepted exactly when the divisor divides its value *)
+Theorem multiple_of_int_exact : forall c ds,
+  0 < c -> multiple_of_fits c 0 = true -> is_digits ds -> ds <> [] ->
+  (multiple_of_accepts_int c ds = true <-> (c | val_digits ds 0)).
+Proof.
+  intros c ds Hc Hf Hds Hne. unfold multiple_of_accepts_int, rem_run_u32.
+  destruct ds as [|d0 ds0] eqn:E; [congruence|]. rewrite <- E in *.
+  rewrite run_u32_exact by (auto; lia).
+  pose proof (run_range c ds c Hc (or_intror Hne)) as Hrange.
+  pose proof (run_mod c ds c c Hc eq_refl) as Hmod.
+  rewrite (Z.mod_small _ _ Hrange) in Hmod.
+  rewrite val_digits_acc10 in Hmod.
+  rewrite Z.add_comm, (Z.mul_comm c), Z.mod_add in Hmod by lia.
+  rewrite Hmod, Z.eqb_eq. rewrite Z.mod_divide by lia. reflexivity.
+Qed.
+
+(* without the guard the u32 arithmetic gives a wrong answer: 4294901760 is not accepted
+   as a multiple of itself (found by the C08/C20 harness on the implementation) *)
+Theorem multiple_of_unguarded_refuted :
+  exists c ds, 0 < c < 2 ^ 32 /\ is_digits ds /\ (c | val_digits ds 0) /\ multiple_of_accepts_int c ds = false.
+Proof.
+  exists 4294901760, [4;2;9;4;9;0;1;7;6;0]. split; [split; reflexivity|].
+  split; [repeat constructor; lia|]. split; [exists 1; reflexivity|].
+  vm_compute. reflexivity.
+Qed.
+
+(* the compile-time guard, with the variant read from the source *)
+Theorem multiple_of_guarded_exact : forall c ds,
+  multiple_of_compiles true c 0 = true -> 0 <= c -> is_digits ds -> ds <> [] ->
+  (multiple_of_accepts_int c ds = true <-> (c | val_digits ds 0)).
+Proof.
+  intros c ds H Hc0 Hds Hne. unfold multiple_of_compiles in H.
+  apply andb_prop in H as [Hz Hf]. cbn [negb orb] in Hf.
+  apply negb_true_iff, Z.eqb_neq in Hz.
+  apply multiple_of_int_exact; auto. lia.
+Qed.
+
+Print Assumptions rem_step_exact.
+Print Assumptions multiple_of_int_exact.
+Print Assumptions multiple_of_unguarded_refuted.
+Print Assumptions multiple_of_guarded_exact.
